@@ -20,6 +20,11 @@ Proof.
     repeat match goal with |- context [N.eqb ?x ?y] => destruct (N.eqb_spec x y) end;
     cbn; constructor; congruence.
 Qed.
+#[global] Instance EqbSpec_route : EqbSpec route.
+Proof.
+  intros [p1 n1 i1] [p2 n2 i2]. unfold eqb, Eqb_route. cbn [r_pfx r_nh r_if].
+  destruct (N.eqb_spec p1 p2); destruct (N.eqb_spec n1 n2); destruct (N.eqb_spec i1 i2); cbn; constructor; congruence.
+Qed.
 #[global] Arguments eqb {K _} _ _ : simpl never.
 
 Section AssocFacts.
@@ -64,20 +69,63 @@ Ltac maps := rewrite ?lookup_upsert, ?lookup_remove in *.
 Lemma getd_upsert i j n m : getd j (upsert i n m) = if eqb j i then n else getd j m.
 Proof. unfold getd. rewrite lookup_upsert. destruct (eqb j i); reflexivity. Qed.
 
+
+(* lists of waiting routes *)
+Lemma mem_In r l : mem r l = true <-> In r l.
+Proof.
+  induction l as [|x t IH]; cbn; [split; [discriminate|tauto]|].
+  destruct (eqb_spec r x) as [->|Hne]; cbn; [tauto|]. rewrite IH. split; [tauto|intros [H|H]; [congruence|exact H]].
+Qed.
+Lemma remove1_In x r l : In x (remove1 r l) -> In x l.
+Proof.
+  induction l as [|y t IH]; cbn; [tauto|]. destruct (eqb_spec r y); cbn; [tauto|]. intros [H|H]; auto.
+Qed.
+Lemma remove1_keeps x r l : In x l -> x <> r -> In x (remove1 r l).
+Proof.
+  induction l as [|y t IH]; cbn; [tauto|]. destruct (eqb_spec r y) as [->|Hne]; cbn.
+  - intros [H|H] Hx; [congruence|exact H].
+  - intros [H|H] Hx; [now left|right; auto].
+Qed.
+Lemma remove1_NoDup r l : NoDup l -> NoDup (remove1 r l) /\ ~ In r (remove1 r l).
+Proof.
+  induction l as [|y t IH]; cbn; intros Hn; [split; [constructor|tauto]|].
+  inversion Hn as [|? ? Hy Ht]; subst. destruct (eqb_spec r y) as [->|Hne]; cbn.
+  - split; assumption.
+  - destruct (IH Ht) as (H1 & H2). split.
+    + constructor; [|exact H1]. intros H. apply Hy. eapply remove1_In; eauto.
+    + intros [H|H]; [congruence|tauto].
+Qed.
+Lemma NoDup_snoc (r : route) l : NoDup l -> ~ In r l -> NoDup (l ++ [r]).
+Proof.
+  induction l as [|y t IH]; cbn; intros Hn Hr; [constructor; [tauto|constructor]|].
+  inversion Hn; subst. constructor.
+  - rewrite in_app_iff. cbn. intros [H|[H|[]]]; [tauto|subst; tauto].
+  - apply IH; tauto.
+Qed.
+Lemma route_eta r : Route (r_pfx r) (r_nh r) (r_if r) = r.
+Proof. destruct r; reflexivity. Qed.
+
+(* what add_neighbor never touches *)
+Lemma add_neighbor_same s r mac :
+  cfg_ifs (add_neighbor s r mac) = cfg_ifs s /\ unres (add_neighbor s r mac) = unres s /\
+  kneigh (add_neighbor s r mac) = kneigh s /\ kern (add_neighbor s r mac) = kern s /\
+  nhif (add_neighbor s r mac) = nhif s.
+Proof. unfold add_neighbor. destruct (lookup (r_nh r) (ncache s)); cbn; auto. Qed.
+
 (* ================================================================ 1. gates (needs only "bound") *)
 Definition GInv (s : st) : Prop :=
   (forall nh e, lookup nh (ncache s) = Some e ->
      exists i, lookup nh (nhif s) = Some i /\ n_gate e < getd i (gatecnt s)) /\
   (forall nh1 nh2 e1 e2 i, nh1 <> nh2 -> lookup nh1 (ncache s) = Some e1 -> lookup nh2 (ncache s) = Some e2 ->
      lookup nh1 (nhif s) = Some i -> lookup nh2 (nhif s) = Some i -> n_gate e1 <> n_gate e2) /\
-  (forall nh r, lookup nh (unres s) = Some r -> r_nh r = nh /\ lookup nh (nhif s) = Some (r_if r)).
+  (forall nh l r, lookup nh (unres s) = Some l -> In r l -> r_nh r = nh /\ lookup nh (nhif s) = Some (r_if r)).
 
 Lemma ginv_mono s s' :
   GInv s ->
   (forall nh e', lookup nh (ncache s') = Some e' -> exists e, lookup nh (ncache s) = Some e /\ n_gate e' = n_gate e) ->
   (forall i, getd i (gatecnt s) <= getd i (gatecnt s')) ->
   (forall k v, lookup k (nhif s) = Some v -> lookup k (nhif s') = Some v) ->
-  (forall nh r, lookup nh (unres s') = Some r -> r_nh r = nh /\ lookup nh (nhif s') = Some (r_if r)) ->
+  (forall nh l r, lookup nh (unres s') = Some l -> In r l -> r_nh r = nh /\ lookup nh (nhif s') = Some (r_if r)) ->
   GInv s'.
 Proof.
   intros (G1 & G2 & G3) Hnc Hgc Hni Hun. split; [|split].
@@ -127,21 +175,45 @@ Proof.
     destruct G as (G1 & G2 & G3).
     apply (ginv_mono s); [split; [|split]; auto| | | |]; cbn [ncache gatecnt nhif unres]; [eauto|intros; lia| |].
     + intros k v Hk. maps. eqb_cases; congruence.
-    + intros nh r0 H0. destruct (G3 _ _ H0) as (Ha & Hb'). split; [auto|]. maps. eqb_cases; congruence.
+    + intros nh l r0 H0 Hin. destruct (G3 _ _ _ H0 Hin) as (Ha & Hb'). split; [auto|]. maps. eqb_cases; congruence.
 Qed.
 
 Lemma ginv_delete s r : GInv s -> GInv (delete_route_entry s r).
 Proof.
   intros G. unfold delete_route_entry.
-  destruct (lookup (r_nh r) (ncache s)) as [e|] eqn:E; [|exact G].
-  destruct (lpm_del (bs s) (r_if r) (r_pfx r)) as [b1|]; [|exact G].
-  assert (Hup : GInv (set_nc (set_bs s b1) (upsert (r_nh r) (Neigh (n_gate e) (n_mac e) (n_count e - 1)) (ncache s)))).
-  { apply (ginv_mono s); auto; cbn [set_nc set_bs ncache gatecnt nhif unres]; [|intros; lia|apply G].
-    intros nh e'. maps. eqb_cases; [intros [= <-]; subst; eauto|eauto]. }
-  destruct (Z.eqb _ 0); [|exact Hup].
-  destruct (destroy b1 _) as [b2|]; [|exact Hup].
-  apply (ginv_mono s); auto; cbn [set_nc set_bs ncache gatecnt nhif unres]; [|intros; lia|apply G].
-  intros nh e'. maps. eqb_cases; [discriminate|eauto].
+  destruct (lookup (r_nh r) (ncache s)) as [e|] eqn:E.
+  - destruct (lpm_del (bs s) (r_if r) (r_pfx r)) as [b1|]; [|exact G].
+    assert (Hup : GInv (set_nc (set_bs s b1) (upsert (r_nh r) (Neigh (n_gate e) (n_mac e) (n_count e - 1)) (ncache s)))).
+    { apply (ginv_mono s); auto; cbn [set_nc set_bs ncache gatecnt nhif unres]; [|intros; lia|apply G].
+      intros nh e'. maps. eqb_cases; [intros [= <-]; subst; eauto|eauto]. }
+    destruct (Z.eqb _ 0); [|exact Hup].
+    destruct (destroy b1 _) as [b2|]; [|exact Hup].
+    apply (ginv_mono s); auto; cbn [set_nc set_bs ncache gatecnt nhif unres]; [|intros; lia|apply G].
+    intros nh e'. maps. eqb_cases; [discriminate|eauto].
+  - destruct (lookup (r_nh r) (unres s)) as [l|] eqn:El; [|exact G].
+    destruct (mem r l); [|exact G]. destruct G as (G1 & G2 & G3).
+    destruct (remove1 r l) as [|x t] eqn:Er.
+    + apply (ginv_mono s); [split; [|split]; auto| | | |]; cbn [set_unres ncache gatecnt nhif unres]; [eauto|intros; lia|auto|].
+      intros nh l0 r0. maps. eqb_cases; [discriminate|apply G3].
+    + apply (ginv_mono s); [split; [|split]; auto| | | |]; cbn [set_unres ncache gatecnt nhif unres]; [eauto|intros; lia|auto|].
+      intros nh l0 r0. maps. eqb_cases; [|apply G3].
+      intros [= <-] Hin. subst. apply (G3 _ _ _ El). apply (remove1_In _ r). rewrite Er. exact Hin.
+Qed.
+
+Lemma ginv_fold mac l : forall s, GInv s -> (forall r, In r l -> lookup (r_nh r) (nhif s) = Some (r_if r)) ->
+  GInv (fold_left (fun s' r => add_neighbor s' r mac) l s).
+Proof.
+  induction l as [|r t IH]; intros s G H; cbn; [exact G|].
+  apply IH; [apply ginv_add_neighbor; [exact G|apply H; now left]|].
+  intros r0 Hr0. destruct (add_neighbor_same s r mac) as (_ & _ & _ & _ & ->). apply H. now right.
+Qed.
+Lemma fold_same mac l : forall s,
+  let s' := fold_left (fun s' r => add_neighbor s' r mac) l s in
+  cfg_ifs s' = cfg_ifs s /\ unres s' = unres s /\ kneigh s' = kneigh s /\ kern s' = kern s /\ nhif s' = nhif s.
+Proof.
+  induction l as [|r t IH]; intros s; cbn; [auto|].
+  destruct (IH (add_neighbor s r mac)) as (A & B & C & D & E).
+  destruct (add_neighbor_same s r mac) as (A' & B' & C' & D' & E'). repeat split; congruence.
 Qed.
 
 Lemma ginv_step s ev : GInv s -> bound_ev s ev = true -> GInv (step s ev).
@@ -151,20 +223,27 @@ Proof.
     destruct (ginv_kern_add s r G Hb M) as (G' & Hif). set (s1 := kern_add s r) in *.
     unfold add_new_route_entry. destruct (lookup (r_nh r) (kneigh s1)) as [mac|].
     + apply ginv_add_neighbor; assumption.
-    + apply (ginv_mono s1); auto; cbn [ncache gatecnt nhif unres]; [eauto|intros; lia|].
-      intros nh r0. maps. eqb_cases; [intros [= <-]; subst; auto|apply G'].
+    + unfold probe_addr. apply (ginv_mono s1); auto; cbn [ncache gatecnt nhif unres]; [eauto|intros; lia|].
+      destruct G' as (_ & _ & G3). intros nh l r0. maps. eqb_cases; [|apply G3].
+      intros [= <-] Hin. subst nh.
+      change (unres s1) with (unres s) in *. destruct (lookup (r_nh r) (unres s)) as [l0|] eqn:El.
+      * destruct (mem r l0); [exact (G3 _ _ _ El Hin)|].
+        apply in_app_or in Hin. destruct Hin as [Hin|[<-|[]]]; [exact (G3 _ _ _ El Hin)|auto].
+      * cbn in Hin. destruct Hin as [<-|[]]. auto.
   - destruct (managed s (r_if r)); [|exact G]. apply ginv_delete.
     unfold kern_del. destruct (kern_has s r); [|exact G].
     apply (ginv_mono s); auto; cbn [ncache gatecnt nhif unres]; [eauto|intros; lia|apply G].
   - unfold new_neigh. set (s1 := St _ _ _ _ (upsert nh mac (kneigh s)) _ _ _ _).
     assert (G1 : GInv s1).
     { apply (ginv_mono s); auto; unfold s1; cbn [ncache gatecnt nhif unres]; [eauto|intros; lia|apply G]. }
-    destruct (lookup nh (unres s1)) as [r|] eqn:E; [|exact G1].
-    destruct G1 as (Ga & Gb & Gc). destruct (Gc _ _ E) as (Hnh & Hif).
-    assert (G2 : GInv (add_neighbor s1 r mac)).
-    { apply ginv_add_neighbor; [split; [|split]; assumption|]. rewrite Hnh. exact Hif. }
-    apply (ginv_mono (add_neighbor s1 r mac)); auto; cbn [set_unres ncache gatecnt nhif unres]; [eauto|intros; lia|].
-    intros nh0 r0. maps. eqb_cases; [discriminate|apply G2].
+    destruct (lookup nh (unres s1)) as [[|r t]|] eqn:E; [exact G1| |exact G1].
+    set (l := r :: t) in *.
+    assert (G2 : GInv (fold_left (fun s' r0 => add_neighbor s' r0 mac) l s1)).
+    { apply ginv_fold; [exact G1|]. intros r0 Hr0. destruct G1 as (_ & _ & Gc).
+      destruct (Gc _ _ _ E Hr0) as (-> & Hif). exact Hif. }
+    destruct (fold_same mac l s1) as (_ & Hu & _ & _ & Hn). cbn zeta in Hu, Hn.
+    apply (ginv_mono _ _ G2); cbn [set_unres ncache gatecnt nhif unres]; [eauto|intros; lia|auto|].
+    intros nh0 l0 r0. maps. eqb_cases; [discriminate|]. apply G2.
   - exact G.
 Qed.
 
@@ -239,482 +318,27 @@ Proof.
     + intros k. rewrite !lookup_upsert. eqb_cases; subst; auto; congruence.
 Qed.
 
-(* ================================================================ 3. the mirror invariant ("good" histories) *)
-(* gate g of <iface i>Routes leads to the Update module that writes mac, which feeds <iface i>Merge *)
-Definition path (b : bess) (i g mac : N) : Prop :=
-  lookup (MRoutes i, g) (links b) = Some (MUpdI i mac, 0) /\
-  lookup (MUpdI i mac) (upd b) = Some mac /\
-  lookup (MUpdI i mac, 0) (links b) = Some (MMerge i, 0).
-
-(* hp / hn: the prefix / next hop whose clause is suspended between the kernel-side update of an
-   event and the end of the handler *)
-Record InvH (s : st) (uf : bool) (hp hn : option N) : Prop := {
-  iA1 : forall p nh i, lookup p (kern s) = Some (nh, i) -> lookup nh (nhif s) = Some i;
-  iA2 : forall nh r, hn <> Some nh -> lookup nh (unres s) = Some r ->
-          r_nh r = nh /\ lookup (r_pfx r) (kern s) = Some (nh, r_if r) /\ lookup nh (kneigh s) = None;
-  iA3 : forall p nh i, lookup p (kern s) = Some (nh, i) -> lookup nh (kneigh s) = None ->
-          lookup nh (unres s) = Some (Route p nh i);
-  iA4 : forall nh e, lookup nh (ncache s) = Some e ->
-          lookup nh (kneigh s) = Some (n_mac e) /\
-          exists i, lookup nh (nhif s) = Some i /\ path (bs s) i (n_gate e) (n_mac e);
-  iA5 : forall i p g, lookup (i, p) (lpm (bs s)) = Some g ->
-          exists nh e, lookup p (kern s) = Some (nh, i) /\ lookup nh (ncache s) = Some e /\ g = n_gate e;
-  iA6 : forall p nh i mac, hp <> Some p -> lookup p (kern s) = Some (nh, i) -> lookup nh (kneigh s) = Some mac ->
-          exists e, lookup nh (ncache s) = Some e /\ lookup (i, p) (lpm (bs s)) = Some (n_gate e);
-  (* only demanded (uf = true) on histories in which no next hop loses its last route *)
-  iA11 : uf = true -> forall nh e, lookup nh (ncache s) = Some e -> exists p i, lookup p (kern s) = Some (nh, i);
-  iA12 : uf = true -> forall u mac, lookup u (upd (bs s)) = Some mac ->
-           exists nh e i, lookup nh (ncache s) = Some e /\ lookup nh (nhif s) = Some i /\ u = MUpdI i (n_mac e);
-  iB : BInv s }.
-Definition InvF (uf : bool) (s : st) : Prop := InvH s uf None None.
-Definition Inv (s : st) : Prop := InvF false s.
-
-Lemma route_eta r : Route (r_pfx r) (r_nh r) (r_if r) = r.
-Proof. destruct r; reflexivity. Qed.
-
-(* ---- automation: saturate the context with the consequences of an invariant *)
-Definition Done (P : Prop) : Prop := P.
-Ltac learn H :=
-  let T0 := type of H in
-  let T := eval cbn [r_pfx r_nh r_if n_gate n_mac n_count fst snd] in T0 in
-  lazymatch goal with
-  | _ : T |- _ => fail
-  | _ : Done T |- _ => fail
-  | _ => pose proof (H : T)
-  end.
-Ltac side := solve [discriminate | congruence | assumption].
-Ltac sat1 I :=
-  match goal with
-  | H : lookup ?p (kern _) = Some (?nh, ?i) |- _ => learn (iA1 _ _ _ _ I p nh i H)
-  | H : lookup ?nh (unres _) = Some ?r |- _ => learn (iA2 _ _ _ _ I nh r ltac:(side) H)
-  | H1 : lookup ?p (kern _) = Some (?nh, ?i), H2 : lookup ?nh (kneigh _) = None |- _ => learn (iA3 _ _ _ _ I p nh i H1 H2)
-  | H : lookup ?nh (ncache _) = Some ?e |- _ => learn (iA4 _ _ _ _ I nh e H)
-  | H : lookup (?i, ?p) (lpm _) = Some ?g |- _ => learn (iA5 _ _ _ _ I i p g H)
-  | H1 : lookup ?p (kern _) = Some (?nh, ?i), H2 : lookup ?nh (kneigh _) = Some ?m |- _ =>
-      learn (iA6 _ _ _ _ I p nh i m ltac:(side) H1 H2)
-  end.
-Ltac open1 :=
-  match goal with
-  | H : ?A /\ ?B |- _ => let X := fresh in pose proof H as X; change (Done (A /\ B)) in H; destruct X
-  | H : @ex ?T ?P |- _ => let X := fresh in pose proof H as X; change (Done (@ex T P)) in H; destruct X
-  end.
-Ltac rnd I := repeat sat1 I; repeat open1.
-Ltac sat I := rnd I; rnd I.
-Ltac simp_st :=
-  cbn [kern_add set_nc set_bs set_unres cfg_ifs ncache unres gatecnt kneigh kern nhif bs pings lpm upd links lpm_add
-       r_pfx r_nh r_if n_gate n_mac n_count fst snd] in *.
-Ltac brk := repeat lazymatch goal with |- _ /\ _ => split | |- @ex _ _ => eexists end.
-Ltac wit :=
-  try match goal with
-      | |- exists nh e, lookup ?p ?m = Some (nh, ?i) /\ _ =>
-          match goal with H : lookup p m = Some (?x, i) |- _ => exists x end
-      end.
-Ltac inj :=
-  repeat match goal with
-         | H : Some _ = Some _ |- _ => injection H; clear H; intros; subst
-         | H : (_, _) = (_, _) |- _ => injection H; clear H; intros; subst
-         end.
-Ltac prj := cbn [n_gate n_mac n_count r_pfx r_nh r_if fst snd] in *.
-Ltac g1 :=
-  first [ eassumption | reflexivity
-        | solve [prj; first [congruence | lia | eauto 4]]
-        | solve [maps; eqb_cases; inj; prj; first [reflexivity | congruence | eassumption | lia]] ].
-Ltac fin :=
-  subst; inj; rewrite ?route_eta; try congruence; try lia;
-  try solve [eauto 4];
-  try solve [brk; g1].
-
-(* --- NEWROUTE, kernel side *)
-Lemma nhif_kern_add s r k v :
-  lookup k (nhif s) = Some v -> lookup k (nhif (kern_add s r)) = Some v.
+Lemma connect_lpm b src og dst ig b' : connect b src og dst ig = Some b' -> lpm b' = lpm b.
 Proof.
-  intros H. unfold kern_add. cbn [nhif]. destruct (lookup (r_nh r) (nhif s)) eqn:E; [exact H|].
-  maps. eqb_cases; congruence.
+  unfold connect. destruct (_ && _); [|discriminate].
+  destruct (lookup (src, og) (links b)); [discriminate|]. intros [= <-]. reflexivity.
 Qed.
-Lemma nhif_kern_add_nh s r :
-  bound_ev s (NewRoute r) = true -> managed s (r_if r) = true ->
-  lookup (r_nh r) (nhif (kern_add s r)) = Some (r_if r).
+Lemma create_and_link_lpm b i g mac : lpm (create_and_link b i g mac) = lpm b.
 Proof.
-  intros Hb M. unfold bound_ev in Hb. rewrite M in Hb. cbn [negb orb] in Hb.
-  unfold kern_add. cbn [nhif]. destruct (lookup (r_nh r) (nhif s)) as [i|] eqn:E.
-  - eqb_cases; congruence.
-  - maps. eqb_cases; congruence.
+  unfold create_and_link, create_upd.
+  destruct (mod_exists b (MUpdI i mac)).
+  - destruct (connect b (MRoutes i) g (MUpdI i mac) 0) as [b1|] eqn:C1; [|reflexivity].
+    destruct (connect b1 (MUpdI i mac) 0 (MMerge i) 0) as [b2|] eqn:C2.
+    + now rewrite (connect_lpm _ _ _ _ _ _ C2), (connect_lpm _ _ _ _ _ _ C1).
+    + now rewrite (connect_lpm _ _ _ _ _ _ C1).
+  - set (b0 := Bess _ _ _). change (lpm b) with (lpm b0).
+    destruct (connect b0 (MRoutes i) g (MUpdI i mac) 0) as [b1|] eqn:C1; [|reflexivity].
+    destruct (connect b1 (MUpdI i mac) 0 (MMerge i) 0) as [b2|] eqn:C2.
+    + now rewrite (connect_lpm _ _ _ _ _ _ C2), (connect_lpm _ _ _ _ _ _ C1).
+    + now rewrite (connect_lpm _ _ _ _ _ _ C1).
 Qed.
 
-Lemma inv_kern_add_known uf s r mac :
-  InvF uf s -> managed s (r_if r) = true -> bound_ev s (NewRoute r) = true ->
-  lookup (r_pfx r) (kern s) = None -> lookup (r_nh r) (kneigh s) = Some mac ->
-  InvH (kern_add s r) uf (Some (r_pfx r)) None.
-Proof.
-  intros I M Hb Hfresh Hk. pose proof (nhif_kern_add_nh s r Hb M) as Hnh.
-  pose proof (nhif_kern_add s r) as Hext. set (ni := nhif (kern_add s r)) in *.
-  constructor; simp_st; fold ni.
-  - intros p nh i H. maps. eqb_cases; sat I; fin.
-  - intros nh r0 _ H. maps. sat I. eqb_cases; fin.
-  - intros p nh i H1 H2. maps. eqb_cases; sat I; fin.
-  - intros nh e H. sat I. fin.
-  - intros i p g H. sat I. maps. eqb_cases; fin.
-  - intros p nh i m Hp H1 H2. maps. eqb_cases; sat I; fin.
-  - intros U nh e H. destruct (iA11 _ _ _ _ I U nh e H) as (p0 & i0 & K). exists p0, i0. maps. eqb_cases; congruence.
-  - intros U u m H. destruct (iA12 _ _ _ _ I U u m H) as (nh0 & e0 & i0 & A & B & C). exists nh0, e0, i0. brk; auto.
-  - exact (iB _ _ _ _ I).
-Qed.
-
-Lemma inv_kern_add_pending uf s r :
-  InvF uf s -> managed s (r_if r) = true -> bound_ev s (NewRoute r) = true ->
-  lookup (r_pfx r) (kern s) = None -> lookup (r_nh r) (kneigh s) = None -> lookup (r_nh r) (unres s) = None ->
-  InvF uf (add_new_route_entry (kern_add s r) r).
-Proof.
-  intros I M Hb Hfresh Hk Hu. pose proof (nhif_kern_add_nh s r Hb M) as Hnh.
-  pose proof (nhif_kern_add s r) as Hext.
-  unfold add_new_route_entry. change (kneigh (kern_add s r)) with (kneigh s). rewrite Hk.
-  set (ni := nhif (kern_add s r)) in *.
-  constructor; simp_st; fold ni.
-  - intros p nh i H. maps. eqb_cases; sat I; fin.
-  - intros nh r0 _ H. maps. eqb_cases; sat I; maps; eqb_cases; fin.
-  - intros p nh i H1 H2. maps. eqb_cases; sat I; fin.
-  - intros nh e H. sat I. fin.
-  - intros i p g H. sat I. maps. eqb_cases; fin.
-  - intros p nh i m Hp H1 H2. maps. eqb_cases; sat I; fin.
-  - intros U nh e H. destruct (iA11 _ _ _ _ I U nh e H) as (p0 & i0 & K). exists p0, i0. maps. eqb_cases; congruence.
-  - intros U u m H. destruct (iA12 _ _ _ _ I U u m H) as (nh0 & e0 & i0 & A & B & C). exists nh0, e0, i0. brk; auto.
-  - exact (iB _ _ _ _ I).
-Qed.
-
-(* --- _add_neighbor fills the suspended clause of its route *)
-Lemma inv_fill uf s r mac hn :
-  InvH s uf (Some (r_pfx r)) hn ->
-  lookup (r_pfx r) (kern s) = Some (r_nh r, r_if r) -> lookup (r_nh r) (kneigh s) = Some mac ->
-  InvH (add_neighbor s r mac) uf None hn.
-Proof.
-  intros I Hkr Hkn. pose proof (iA1 _ _ _ _ I _ _ _ Hkr) as Hni. destruct (iB _ _ _ _ I) as (B7 & B9 & B10).
-  unfold add_neighbor, gate_of. destruct (lookup (r_nh r) (ncache s)) as [e|] eqn:E.
-  - (* neighbour known: only the table and the count change *)
-    constructor; simp_st.
-    + apply (iA1 _ _ _ _ I).
-    + apply (iA2 _ _ _ _ I).
-    + apply (iA3 _ _ _ _ I).
-    + intros nh e' H. maps. eqb_cases; sat I; fin.
-    + intros i p g H. maps. eqb_cases; sat I; inj; wit; maps; eqb_cases; fin.
-    + intros p nh i m _ H1 H2. destruct (eqb_spec p (r_pfx r)) as [->|Hp].
-      * maps. eqb_cases; sat I; fin.
-      * sat I. maps. eqb_cases; fin.
-    + intros U nh e' H. maps. eqb_cases; [subst; exists (r_pfx r), (r_if r); exact Hkr|]. exact (iA11 _ _ _ _ I U nh e' H).
-    + intros U u m H. destruct (iA12 _ _ _ _ I U u m H) as (nh0 & e0 & i0 & A & B & C).
-      destruct (eqb_spec nh0 (r_nh r)) as [->|Hne].
-      * eexists (r_nh r), _, i0. maps. destruct (eqb_spec (r_nh r) (r_nh r)); [|congruence]. brk; [reflexivity|exact B|]. prj. congruence.
-      * exists nh0, e0, i0. maps. destruct (eqb_spec nh0 (r_nh r)); [congruence|]. auto.
-    + unfold BInv. simp_st. auto.
-  - (* new neighbour: module, links, cache entry, gate counter *)
-    set (i := r_if r) in *. set (g := getd i (gatecnt s)) in *.
-    assert (Hfree : lookup (MRoutes i, g) (links (bs s)) = None).
-    { destruct (lookup (MRoutes i, g) (links (bs s))) as [x|] eqn:El; [|reflexivity]. apply B7 in El. unfold g in El. lia. }
-    destruct (create_and_link_spec (lpm_add (bs s) i (r_pfx r) g) i g mac Hfree B9 B10) as (Hl & Hu & Hk).
-    set (b' := create_and_link _ i g mac) in *. cbn [lpm_add lpm upd links] in Hl, Hu, Hk.
-    constructor; simp_st.
-    + apply (iA1 _ _ _ _ I).
-    + apply (iA2 _ _ _ _ I).
-    + apply (iA3 _ _ _ _ I).
-    + intros nh e' H. maps. eqb_cases.
-      * inj. prj. split; [exact Hkn|]. exists i. split; [exact Hni|]. unfold path. rewrite !Hk, !Hu. eqb_cases; fin.
-      * sat I. split; [assumption|].
-        match goal with Hp : path (bs s) ?j _ _ |- _ => exists j; split; [assumption|]; unfold path in *; repeat open1; rewrite !Hk, !Hu; eqb_cases; fin end.
-    + intros i0 p g0 H. rewrite Hl in H. maps. eqb_cases; sat I; inj; wit; maps; eqb_cases; fin.
-    + intros p nh i0 m _ H1 H2. rewrite Hl. destruct (eqb_spec p (r_pfx r)) as [->|Hp].
-      * maps. eqb_cases; sat I; fin.
-      * sat I. maps. eqb_cases; fin.
-    + intros U nh e' H. maps. eqb_cases; [subst; exists (r_pfx r), (r_if r); exact Hkr|]. exact (iA11 _ _ _ _ I U nh e' H).
-    + intros U u m. rewrite Hu. eqb_cases.
-      * intros [= <-]. subst u. eexists (r_nh r), _, i. maps. destruct (eqb_spec (r_nh r) (r_nh r)); [|congruence]. brk; [reflexivity|exact Hni|reflexivity].
-      * intros H. destruct (iA12 _ _ _ _ I U u m H) as (nh0 & e0 & i0 & A & B & C).
-        exists nh0, e0, i0. maps. destruct (eqb_spec nh0 (r_nh r)); [congruence|]. auto.
-    + unfold BInv. simp_st. split; [|split].
-      * intros i0 g0 x. rewrite Hk, getd_upsert. eqb_cases; inj; try lia; try congruence; intros H; apply B7 in H; subst; unfold g in *; lia.
-      * intros u m. rewrite Hu. eqb_cases.
-        -- intros [= <-]. subst u. exists i. split; [reflexivity|]. rewrite Hk. eqb_cases; fin.
-        -- intros H. destruct (B9 _ _ H) as (j & -> & Hj). exists j. split; [reflexivity|]. rewrite Hk. eqb_cases; fin.
-      * intros u og x. rewrite Hk. destruct u; cbn [mod_exists]; auto; rewrite Hu; eqb_cases; inj; try congruence; auto;
-          intros H; apply B10 in H; cbn [mod_exists] in H; exact H.
-Qed.
-
-(* --- DELROUTE *)
-Lemma kern_has_true s r : kern_has s r = true -> lookup (r_pfx r) (kern s) = Some (r_nh r, r_if r).
-Proof.
-  unfold kern_has. destruct (lookup (r_pfx r) (kern s)) as [x|]; [|discriminate].
-  destruct (eqb_spec x (r_nh r, r_if r)); [congruence|discriminate].
-Qed.
-
-Lemma delete_shape s r e g :
-  lookup (r_nh r) (ncache s) = Some e -> lookup (r_if r, r_pfx r) (lpm (bs s)) = Some g ->
-  (forall u mac, lookup u (upd (bs s)) = Some mac -> exists i, u = MUpdI i mac) ->
-  delete_route_entry s r =
-  set_nc (set_bs s (Bess (remove (r_if r, r_pfx r) (lpm (bs s))) (upd (bs s)) (links (bs s))))
-         (upsert (r_nh r) (Neigh (n_gate e) (n_mac e) (n_count e - 1)) (ncache s)).
-Proof.
-  intros He Hl H9. unfold delete_route_entry, lpm_del. rewrite He, Hl. cbn [n_count].
-  destruct (Z.eqb (n_count e - 1) 0); [|reflexivity].
-  unfold destroy. cbn [upd].
-  destruct (lookup (MUpdR (r_if r) (n_mac e)) (upd (bs s))) as [m|] eqn:E; [|reflexivity].
-  destruct (H9 _ _ E) as (j & Hj). discriminate Hj.
-Qed.
-
-Lemma keepuser_other s r :
-  managed s (r_if r) = true -> keepuser_ev s (DelRoute r) = true ->
-  exists p i, p <> r_pfx r /\ lookup p (kern s) = Some (r_nh r, i).
-Proof.
-  intros M H. cbn [keepuser_ev] in H. rewrite M in H. cbn [negb orb] in H.
-  apply existsb_exists in H. destruct H as ([p v] & _ & H). cbn [fst] in H.
-  apply andb_true_iff in H. destruct H as (H1 & H2).
-  destruct (lookup p (kern s)) as [[nh i]|] eqn:E; [|discriminate].
-  exists p, i. eqb_cases; try discriminate. subst. auto.
-Qed.
-
-Lemma inv_delete uf s r :
-  InvF uf s -> kern_has s r = true -> is_some (lookup (r_nh r) (kneigh s)) = true ->
-  (uf = true -> exists p i, p <> r_pfx r /\ lookup p (kern s) = Some (r_nh r, i)) ->
-  InvF uf (delete_route_entry (kern_del s r) r).
-Proof.
-  intros I Hh Hk Hkeep. pose proof (kern_has_true _ _ Hh) as Hkr.
-  destruct (lookup (r_nh r) (kneigh s)) as [mac|] eqn:Ekn; [|discriminate]. clear Hk.
-  destruct (iA6 _ _ _ _ I _ _ _ _ ltac:(discriminate) Hkr Ekn) as (e & He & Hl).
-  destruct (iB _ _ _ _ I) as (B7 & B9 & B10).
-  unfold kern_del. rewrite Hh.
-  rewrite (delete_shape _ r e (n_gate e)); simp_st; auto.
-  2:{ intros u m H. destruct (B9 _ _ H) as (j & Hj & _). eauto. }
-  constructor; simp_st.
-  - intros p nh i H. maps. eqb_cases; sat I; fin.
-  - intros nh r0 _ H. sat I. maps. eqb_cases; fin.
-  - intros p nh i H1 H2. maps. eqb_cases; sat I; fin.
-  - intros nh e' H. unfold path. simp_st. maps. eqb_cases; sat I; unfold path in *; fin.
-  - intros i p g H. maps. eqb_cases; sat I; inj; wit; maps; eqb_cases; fin.
-  - intros p nh i m _ H1 H2. maps. eqb_cases; sat I; fin.
-  - intros U nh e' H. maps. eqb_cases.
-    + destruct (Hkeep U) as (p0 & i0 & Hp0 & K). exists p0, i0. maps. eqb_cases; congruence.
-    + destruct (iA11 _ _ _ _ I U nh e' H) as (p0 & i0 & K). exists p0, i0. maps. eqb_cases; [|exact K].
-      congruence.
-  - intros U u m H. destruct (iA12 _ _ _ _ I U u m H) as (nh0 & e0 & i0 & A & B & C).
-    destruct (eqb_spec nh0 (r_nh r)) as [->|Hne].
-    + eexists (r_nh r), _, i0. maps. destruct (eqb_spec (r_nh r) (r_nh r)); [|congruence]. brk; [reflexivity|exact B|]. prj. congruence.
-    + exists nh0, e0, i0. maps. destruct (eqb_spec nh0 (r_nh r)); [congruence|]. auto.
-  - unfold BInv. simp_st. auto.
-Qed.
-
-(* --- NEWNEIGH *)
-Lemma inv_newneigh uf s nh mac :
-  InvF uf s -> wf_ev s (NewNeigh nh mac) = true -> InvF uf (new_neigh s nh mac).
-Proof.
-  intros I Hw. cbn [wf_ev] in Hw. unfold new_neigh.
-  set (s1 := St (cfg_ifs s) (ncache s) (unres s) (gatecnt s) (upsert nh mac (kneigh s)) (kern s) (nhif s) (bs s) (pings s)).
-  change (unres s1) with (unres s).
-  destruct (lookup nh (unres s)) as [r|] eqn:Eu.
-  - (* a route was waiting for this next hop *)
-    destruct (iA2 _ _ _ _ I nh r ltac:(discriminate) Eu) as (Hnh & Hkr & Hkn).
-    assert (I1 : InvH s1 uf (Some (r_pfx r)) (Some nh)).
-    { unfold s1. constructor; simp_st.
-      - apply (iA1 _ _ _ _ I).
-      - intros nh0 r0 Hne H. maps. eqb_cases; subst; sat I; fin.
-      - intros p nh0 i H1 H2. maps. eqb_cases; subst; sat I; fin.
-      - intros nh0 e H. maps. eqb_cases; subst; sat I; fin.
-      - apply (iA5 _ _ _ _ I).
-      - intros p nh0 i m Hp H1 H2. maps. eqb_cases; subst; sat I; fin.
-      - apply (iA11 _ _ _ _ I).
-      - apply (iA12 _ _ _ _ I).
-      - exact (iB _ _ _ _ I). }
-    assert (I2 : InvH (add_neighbor s1 r mac) uf None (Some nh)).
-    { apply inv_fill; [exact I1| |]; unfold s1; simp_st; [congruence|]. maps. rewrite Hnh. eqb_cases; congruence. }
-    set (s2 := add_neighbor s1 r mac) in *.
-    assert (Hsame : unres s2 = unres s /\ kern s2 = kern s /\ kneigh s2 = upsert nh mac (kneigh s)).
-    { unfold s2, add_neighbor. destruct (lookup (r_nh r) (ncache s1)); auto. }
-    destruct Hsame as (Hu2 & Hk2 & Hn2).
-    constructor; simp_st.
-    + apply (iA1 _ _ _ _ I2).
-    + intros nh0 r0 _ H. rewrite Hnh in H. maps. eqb_cases; [discriminate|].
-      apply (iA2 _ _ _ _ I2 nh0 r0); [congruence|exact H].
-    + intros p nh0 i H1 H2. rewrite Hnh. maps.
-      pose proof (iA3 _ _ _ _ I2 _ _ _ H1 H2) as H3. rewrite Hn2 in H2. maps. eqb_cases; fin.
-    + apply (iA4 _ _ _ _ I2).
-    + apply (iA5 _ _ _ _ I2).
-    + apply (iA6 _ _ _ _ I2).
-    + apply (iA11 _ _ _ _ I2).
-    + apply (iA12 _ _ _ _ I2).
-    + exact (iB _ _ _ _ I2).
-  - (* nothing was waiting *)
-    unfold s1. constructor; simp_st.
-    + apply (iA1 _ _ _ _ I).
-    + intros nh0 r0 _ H. maps. eqb_cases; subst; sat I; fin.
-    + intros p nh0 i H1 H2. maps. eqb_cases; subst; sat I; fin.
-    + intros nh0 e H. maps. eqb_cases; subst; sat I; fin.
-      match goal with H1 : lookup nh (kneigh s) = Some _ |- _ => rewrite H1 in Hw end.
-      apply N.eqb_eq in Hw. subst. fin.
-    + apply (iA5 _ _ _ _ I).
-    + intros p nh0 i m _ H1 H2. maps. eqb_cases; subst.
-      * destruct (lookup nh (kneigh s)) as [m'|] eqn:Ek; sat I; fin.
-      * sat I; fin.
-    + apply (iA11 _ _ _ _ I).
-    + apply (iA12 _ _ _ _ I).
-    + exact (iB _ _ _ _ I).
-Qed.
-
-(* --- one step, whole histories *)
-Lemma good_ev_parts s ev :
-  good_ev s ev = true ->
-  wf_ev s ev = true /\ bound_ev s ev = true /\ onepending_ev s ev = true /\ nodelpending_ev s ev = true.
-Proof. unfold good_ev. rewrite !andb_true_iff. tauto. Qed.
-
-Lemma is_none_true {A} (o : option A) : is_none o = true -> o = None.
-Proof. destruct o; [discriminate|reflexivity]. Qed.
-
-Lemma inv_step uf s ev :
-  InvF uf s -> good_ev s ev = true -> (uf = true -> keepuser_ev s ev = true) -> InvF uf (step s ev).
-Proof.
-  intros I Hg Hkeep. destruct (good_ev_parts _ _ Hg) as (Hw & Hb & Ho & Hd).
-  destruct ev as [r|r|nh mac|]; cbn [step].
-  - destruct (managed s (r_if r)) eqn:M; [|exact I].
-    cbn [wf_ev onepending_ev] in Hw, Ho. rewrite M in Hw, Ho. cbn [negb orb] in Hw, Ho.
-    apply is_none_true in Hw.
-    destruct (lookup (r_nh r) (kneigh s)) as [mac|] eqn:Ek.
-    + unfold add_new_route_entry. change (kneigh (kern_add s r)) with (kneigh s). rewrite Ek.
-      apply inv_fill.
-      * eapply inv_kern_add_known; eauto.
-      * unfold kern_add. cbn [kern]. rewrite lookup_upsert. destruct (eqb_spec (r_pfx r) (r_pfx r)); congruence.
-      * exact Ek.
-    + cbn [is_some is_none negb orb] in Ho. apply is_none_true in Ho.
-      apply inv_kern_add_pending; assumption.
-  - destruct (managed s (r_if r)) eqn:M; [|exact I].
-    cbn [wf_ev nodelpending_ev] in Hw, Hd. rewrite M in Hw, Hd. cbn [negb orb] in Hw, Hd.
-    apply inv_delete; try assumption.
-    intros U. apply keepuser_other; auto.
-  - apply inv_newneigh; assumption.
-  - exact I.
-Qed.
-
-Lemma inv_init uf ifs : InvF uf (init ifs).
-Proof.
-  constructor; cbn; try (intros; discriminate).
-  unfold BInv. cbn. split; [|split]; intros; discriminate.
-Qed.
-
-Lemma good_bound s h : run_ok good_ev s h = true -> run_ok bound_ev s h = true.
-Proof.
-  revert s. induction h as [|ev h IH]; intros s H; cbn in *; [reflexivity|].
-  apply andb_true_iff in H. destruct H as (H1 & H2). apply good_ev_parts in H1.
-  rewrite IH by assumption. destruct H1 as (_ & -> & _). reflexivity.
-Qed.
-Lemma goodu_good s h : run_ok goodu_ev s h = true -> run_ok good_ev s h = true.
-Proof.
-  revert s. induction h as [|ev h IH]; intros s H; cbn in *; [reflexivity|].
-  apply andb_true_iff in H. destruct H as (H1 & H2). unfold goodu_ev in H1. apply andb_true_iff in H1.
-  rewrite IH by assumption. destruct H1 as (-> & _). reflexivity.
-Qed.
-
-Lemma inv_run h : forall s, Inv s -> run_ok good_ev s h = true -> Inv (run s h).
-Proof.
-  induction h as [|ev h IH]; intros s I Hok; cbn in *; [exact I|].
-  apply andb_true_iff in Hok. destruct Hok as (H1 & H2).
-  apply IH; [apply inv_step; [assumption|assumption|discriminate]|exact H2].
-Qed.
-Lemma invu_run h : forall s, InvF true s -> run_ok goodu_ev s h = true -> InvF true (run s h).
-Proof.
-  induction h as [|ev h IH]; intros s I Hok; cbn in *; [exact I|].
-  apply andb_true_iff in Hok. destruct Hok as (H1 & H2). unfold goodu_ev in H1. apply andb_true_iff in H1.
-  destruct H1 as (Ha & Hb). apply IH; [apply inv_step; auto|exact H2].
-Qed.
-Lemma invf_weaken s : InvF true s -> Inv s.
-Proof.
-  intros I. constructor; try apply I; intros; discriminate.
-Qed.
-
-(* ================================================================ 4. the statements of C20 on a state *)
-(* installed in the interface's lookup module  <->  the kernel has it and the next hop's MAC is known *)
-Definition mirror (s : st) : Prop :=
-  forall i p, (exists g, lookup (i, p) (lpm (bs s)) = Some g) <->
-              (exists nh mac, lookup p (kern s) = Some (nh, i) /\ lookup nh (kneigh s) = Some mac).
-(* every installed kernel route through nh uses THE gate of nh, and that gate leads to THE Update
-   module writing nh's MAC, which feeds the interface's Merge *)
-Definition routes_share (s : st) : Prop :=
-  forall p nh i g, lookup p (kern s) = Some (nh, i) -> lookup (i, p) (lpm (bs s)) = Some g ->
-    exists e, lookup nh (ncache s) = Some e /\ g = n_gate e /\
-              lookup nh (kneigh s) = Some (n_mac e) /\ path (bs s) i g (n_mac e).
-(* installed routes of two different next hops on one interface use different gates *)
-Definition obs_gates_distinct (s : st) : Prop :=
-  forall p1 p2 nh1 nh2 i g1 g2, nh1 <> nh2 ->
-    lookup p1 (kern s) = Some (nh1, i) -> lookup p2 (kern s) = Some (nh2, i) ->
-    lookup (i, p1) (lpm (bs s)) = Some g1 -> lookup (i, p2) (lpm (bs s)) = Some g2 -> g1 <> g2.
-(* a run-time (Update) module exists only while an installed kernel route is forwarded to it *)
-Definition update_used (s : st) : Prop :=
-  forall u mac, lookup u (upd (bs s)) = Some mac ->
-    exists p nh i g, lookup p (kern s) = Some (nh, i) /\ lookup (i, p) (lpm (bs s)) = Some g /\
-                     lookup (MRoutes i, g) (links (bs s)) = Some (u, 0).
-
-Lemma inv_mirror s : Inv s -> mirror s.
-Proof.
-  intros I i p. split.
-  - intros (g & Hg). sat I. fin.
-  - intros (nh & mac & H1 & H2). sat I. fin.
-Qed.
-
-Lemma inv_routes_share s : Inv s -> routes_share s.
-Proof.
-  intros I p nh i g H1 H2. sat I.
-  match goal with
-  | H5 : lookup p (kern s) = Some (?x, i), H7 : lookup ?x (ncache s) = Some ?e, Hp : path (bs s) ?j _ _ |- _ =>
-      assert (x = nh) by congruence; assert (j = i) by congruence; subst; exists e; brk; auto
-  end.
-Qed.
-
-Lemma inv_obs_gates s : Inv s -> GInv s -> obs_gates_distinct s.
-Proof.
-  intros I (G1 & G2 & G3) p1 p2 nh1 nh2 i g1 g2 Hne K1 K2 L1 L2.
-  destruct (inv_routes_share s I _ _ _ _ K1 L1) as (e1 & N1 & -> & _).
-  destruct (inv_routes_share s I _ _ _ _ K2 L2) as (e2 & N2 & -> & _).
-  apply (G2 nh1 nh2 e1 e2 i); auto.
-  - exact (iA1 _ _ _ _ I _ _ _ K1).
-  - exact (iA1 _ _ _ _ I _ _ _ K2).
-Qed.
-
-Lemma invu_update_used s : InvF true s -> update_used s.
-Proof.
-  intros I u mac Hu.
-  destruct (iA12 _ _ _ _ I eq_refl u mac Hu) as (nh & e & i & Hn & Hi & ->).
-  destruct (iA11 _ _ _ _ I eq_refl nh e Hn) as (p & i' & K).
-  pose proof (iA1 _ _ _ _ I _ _ _ K) as Hi'. assert (i' = i) by congruence. subst i'.
-  destruct (iA4 _ _ _ _ I _ _ Hn) as (Hk & j & Hj & Hp & _). assert (j = i) by congruence. subst j.
-  destruct (iA6 _ _ _ _ I _ _ _ _ ltac:(discriminate) K Hk) as (e' & Hn' & Hl).
-  assert (e' = e) by congruence. subst e'.
-  exists p, nh, i, (n_gate e). auto.
-Qed.
-
-(* ================================================================ 5. theorems over all histories *)
-Theorem mirror_good ifs h : run_ok good_ev (init ifs) h = true -> mirror (run (init ifs) h).
-Proof. intros H. apply inv_mirror, inv_run; [apply inv_init|exact H]. Qed.
-
-Theorem routes_share_good ifs h : run_ok good_ev (init ifs) h = true -> routes_share (run (init ifs) h).
-Proof. intros H. apply inv_routes_share, inv_run; [apply inv_init|exact H]. Qed.
-
-Theorem obs_gates_good ifs h : run_ok good_ev (init ifs) h = true -> obs_gates_distinct (run (init ifs) h).
-Proof.
-  intros H. apply inv_obs_gates; [apply inv_run; [apply inv_init|exact H]|].
-  apply ginv_run; [apply ginv_init|apply good_bound; exact H].
-Qed.
-
-Theorem update_used_goodu ifs h : run_ok goodu_ev (init ifs) h = true -> update_used (run (init ifs) h).
-Proof. intros H. apply invu_update_used, invu_run; [apply inv_init|exact H]. Qed.
-
-(* the rewrite module of a gate in use exists (converse of update_used), on every good history *)
-Theorem used_update_exists ifs h :
-  run_ok good_ev (init ifs) h = true ->
-  forall p nh i g, lookup p (kern (run (init ifs) h)) = Some (nh, i) ->
-    lookup (i, p) (lpm (bs (run (init ifs) h))) = Some g ->
-    exists u mac, lookup (MRoutes i, g) (links (bs (run (init ifs) h))) = Some (u, 0) /\
-                  lookup u (upd (bs (run (init ifs) h))) = Some mac /\
-                  lookup nh (kneigh (run (init ifs) h)) = Some mac.
-Proof.
-  intros H p nh i g K L. destruct (routes_share_good ifs h H p nh i g K L) as (e & _ & _ & Hk & (P1 & P2 & _)).
-  eauto.
-Qed.
-
-(* the unchanged code never removes an Update module: destroy is always asked for a name that
-   was never created (MUpdR), whatever the history *)
+(* ---- the unchanged naming bug: destroy is always asked for a name that was never created *)
 Definition no_updr (s : st) : Prop := forall i mac, lookup (MUpdR i mac) (upd (bs s)) = None.
 
 Lemma connect_upd b src og dst ig b' : connect b src og dst ig = Some b' -> upd b' = upd b.
@@ -762,36 +386,78 @@ Proof.
   destruct (eqb_spec u (MUpdI (r_if r) mac)); [subst; congruence|exact Hu].
 Qed.
 
-Lemma delete_upd s r : no_updr s -> upd (bs (delete_route_entry s r)) = upd (bs s).
+Lemma no_updr_fold mac l : forall s, no_updr s -> no_updr (fold_left (fun s' r => add_neighbor s' r mac) l s).
+Proof. induction l as [|r t IH]; intros s H; cbn; [exact H|]. apply IH, no_updr_nn, H. Qed.
+Lemma fold_upd mac u m l : forall s, no_updr s -> lookup u (upd (bs s)) = Some m ->
+  lookup u (upd (bs (fold_left (fun s' r => add_neighbor s' r mac) l s))) = Some m.
 Proof.
-  intros Hn. unfold delete_route_entry. destruct (lookup (r_nh r) (ncache s)) as [e|]; [|reflexivity].
-  unfold lpm_del. destruct (lookup (r_if r, r_pfx r) (lpm (bs s))); [|reflexivity].
-  destruct (Z.eqb _ 0); [|reflexivity].
-  unfold destroy. cbn [upd]. rewrite (Hn (r_if r) (n_mac e)). reflexivity.
+  induction l as [|r t IH]; intros s Hn Hu; cbn; [exact Hu|].
+  destruct (add_neighbor_upd s r mac u m Hn Hu) as (H1 & H2). apply IH; assumption.
+Qed.
+
+(* delete_route_entry, given that destroy cannot succeed *)
+Definition gm (e : neigh) : N * N := (n_gate e, n_mac e).
+Lemma delete_effect s r :
+  no_updr s ->
+  let s' := delete_route_entry s r in
+  upd (bs s') = upd (bs s) /\ links (bs s') = links (bs s) /\ gatecnt s' = gatecnt s /\ nhif s' = nhif s /\
+  kern s' = kern s /\ kneigh s' = kneigh s /\ cfg_ifs s' = cfg_ifs s /\
+  (forall nh, option_map gm (lookup nh (ncache s')) = option_map gm (lookup nh (ncache s))).
+Proof.
+  intros Hn. unfold delete_route_entry.
+  destruct (lookup (r_nh r) (ncache s)) as [e|] eqn:E.
+  - unfold lpm_del. destruct (lookup (r_if r, r_pfx r) (lpm (bs s))); [|cbn; repeat split; reflexivity].
+    assert (H : forall c, let s' := set_nc (set_bs s (Bess (remove (r_if r, r_pfx r) (lpm (bs s))) (upd (bs s)) (links (bs s))))
+                                     (upsert (r_nh r) (Neigh (n_gate e) (n_mac e) c) (ncache s)) in
+              upd (bs s') = upd (bs s) /\ links (bs s') = links (bs s) /\ gatecnt s' = gatecnt s /\ nhif s' = nhif s /\
+              kern s' = kern s /\ kneigh s' = kneigh s /\ cfg_ifs s' = cfg_ifs s /\
+              (forall nh, option_map gm (lookup nh (ncache s')) = option_map gm (lookup nh (ncache s)))).
+    { intros c. cbn. repeat split. intros nh. maps. eqb_cases; [subst; rewrite E|]; reflexivity. }
+    destruct (Z.eqb _ 0); [|apply H].
+    unfold destroy. cbn [upd]. rewrite (Hn (r_if r) (n_mac e)). apply H.
+  - destruct (lookup (r_nh r) (unres s)) as [l|]; [|cbn; repeat split; reflexivity].
+    destruct (mem r l); [|cbn; repeat split; reflexivity].
+    destruct (remove1 r l); cbn; repeat split; reflexivity.
+Qed.
+Lemma delete_upd s r : no_updr s -> upd (bs (delete_route_entry s r)) = upd (bs s).
+Proof. intros Hn. apply (delete_effect s r Hn). Qed.
+
+Lemma no_updr_step s ev : no_updr s -> no_updr (step s ev).
+Proof.
+  intros Hs. destruct ev as [r|r|nh mac|]; cbn [step].
+  - destruct (managed s (r_if r)); [|apply Hs]. unfold add_new_route_entry.
+    change (kneigh (kern_add s r)) with (kneigh s).
+    destruct (lookup (r_nh r) (kneigh s)); [apply no_updr_nn; exact Hs|apply Hs].
+  - destruct (managed s (r_if r)); [|apply Hs].
+    assert (Hk : bs (kern_del s r) = bs s) by (unfold kern_del; destruct (kern_has s r); reflexivity).
+    unfold no_updr. rewrite delete_upd; [rewrite Hk; apply Hs|unfold no_updr; rewrite Hk; exact Hs].
+  - unfold new_neigh. set (s1 := St _ _ _ _ (upsert nh mac (kneigh s)) _ _ _ _).
+    change (unres s1) with (unres s). destruct (lookup nh (unres s)) as [[|r t]|]; try apply Hs.
+    unfold no_updr. cbn [set_unres bs]. apply (no_updr_fold mac (r :: t) s1). exact Hs.
+  - apply Hs.
 Qed.
 
 Lemma step_upd s ev u m :
-  no_updr s -> lookup u (upd (bs s)) = Some m ->
-  lookup u (upd (bs (step s ev))) = Some m /\ no_updr (step s ev).
+  no_updr s -> lookup u (upd (bs s)) = Some m -> lookup u (upd (bs (step s ev))) = Some m.
 Proof.
   intros Hn Hu. destruct ev as [r|r|nh mac|]; cbn [step].
   - destruct (managed s (r_if r)); [|auto]. unfold add_new_route_entry.
     change (kneigh (kern_add s r)) with (kneigh s).
-    destruct (lookup (r_nh r) (kneigh s)) as [mac|].
-    + apply add_neighbor_upd; auto.
-    + auto.
+    destruct (lookup (r_nh r) (kneigh s)) as [mac|]; [|exact Hu].
+    apply add_neighbor_upd; auto.
   - destruct (managed s (r_if r)); [|auto].
     assert (Hk : bs (kern_del s r) = bs s) by (unfold kern_del; destruct (kern_has s r); reflexivity).
-    assert (Hn' : no_updr (kern_del s r)) by (unfold no_updr; rewrite Hk; exact Hn).
-    split.
-    + rewrite delete_upd by exact Hn'. rewrite Hk. exact Hu.
-    + unfold no_updr. rewrite delete_upd by exact Hn'. rewrite Hk. exact Hn.
+    rewrite delete_upd; [rewrite Hk; exact Hu|unfold no_updr; rewrite Hk; exact Hn].
   - unfold new_neigh. set (s1 := St _ _ _ _ (upsert nh mac (kneigh s)) _ _ _ _).
-    change (unres s1) with (unres s). destruct (lookup nh (unres s)) as [r|]; [|auto].
-    change (bs (set_unres ?x ?y)) with (bs x). unfold no_updr. cbn [set_unres bs].
-    apply (add_neighbor_upd s1 r mac u m); auto.
+    change (unres s1) with (unres s). destruct (lookup nh (unres s)) as [[|r t]|]; try exact Hu.
+    cbn [set_unres bs]. apply (fold_upd mac u m (r :: t) s1); auto.
   - auto.
 Qed.
+
+Lemma no_updr_run h : forall s, no_updr s -> no_updr (run s h).
+Proof. induction h as [|ev h IH]; intros s H; cbn; [exact H|]. apply IH, no_updr_step, H. Qed.
+Lemma no_updr_init ifs : no_updr (init ifs).
+Proof. intros i m. reflexivity. Qed.
 
 (* once created, an Update module stays for ever - on EVERY history *)
 Theorem update_modules_never_removed ifs h1 h2 u m :
@@ -799,74 +465,685 @@ Theorem update_modules_never_removed ifs h1 h2 u m :
   lookup u (upd (bs (run (init ifs) (h1 ++ h2)))) = Some m.
 Proof.
   unfold run. rewrite fold_left_app. fold (run (init ifs) h1).
-  assert (Hn : no_updr (run (init ifs) h1)).
-  { unfold run. generalize (init ifs) (fun i m => eq_refl : lookup (MUpdR i m) (upd (bs (init ifs))) = None).
-    induction h1 as [|ev h IH]; intros s Hs; cbn; [exact Hs|].
-    apply IH. intros i0 m0.
-    destruct ev as [r|r|nh mac|]; cbn [step].
-    - destruct (managed s (r_if r)); [|apply Hs]. unfold add_new_route_entry.
-      change (kneigh (kern_add s r)) with (kneigh s).
-      destruct (lookup (r_nh r) (kneigh s)); [apply no_updr_nn; exact Hs|apply Hs].
-    - destruct (managed s (r_if r)); [|apply Hs].
-      assert (Hk : bs (kern_del s r) = bs s) by (unfold kern_del; destruct (kern_has s r); reflexivity).
-      rewrite delete_upd; [rewrite Hk; apply Hs|unfold no_updr; rewrite Hk; exact Hs].
-    - unfold new_neigh. set (s1 := St _ _ _ _ (upsert nh mac (kneigh s)) _ _ _ _).
-      change (unres s1) with (unres s). destruct (lookup nh (unres s)); [|apply Hs].
-      cbn [set_unres bs]. apply (no_updr_nn s1); exact Hs.
-    - apply Hs. }
+  pose proof (no_updr_run h1 _ (no_updr_init ifs)) as Hn.
   generalize (run (init ifs) h1) Hn. clear Hn.
   induction h2 as [|ev h IH]; intros s Hn Hu; cbn; [exact Hu|].
-  destruct (step_upd s ev u m Hn Hu) as (H1 & H2). apply IH; assumption.
+  apply IH; [apply no_updr_step; exact Hn|apply step_upd; assumption].
 Qed.
 
-(* ================================================================ 6. the refuting histories (F29a, F29b, F29c, F40) *)
-(* every guard except one *)
-Definition but_onepending (s : st) (ev : event) : bool :=
-  wf_ev s ev && bound_ev s ev && nodelpending_ev s ev && keepuser_ev s ev.
-(* (a route deleted while pending is necessarily the only route of its next hop, so keepuser is moot) *)
-Definition but_nodelpending (s : st) (ev : event) : bool :=
-  wf_ev s ev && bound_ev s ev && onepending_ev s ev.
-Definition but_bound (s : st) (ev : event) : bool :=
-  wf_ev s ev && onepending_ev s ev && nodelpending_ev s ev && keepuser_ev s ev.
-
-(* F29a: two routes wait for next hop 1; the second overwrites the first; only the second is installed *)
-Definition h_overwritten : list event :=
-  [NewRoute (Route 0 1 0); NewRoute (Route 1 1 0); NewNeigh 1 101].
-Lemma mirror_refuted_overwritten :
-  exists ifs h, run_ok but_onepending (init ifs) h = true /\ ~ mirror (run (init ifs) h).
+(* ================================================================ 3. the mirror invariant (kernel-admissible histories) *)
+Lemma add_neighbor_shape s r mac :
+  exists e', ncache (add_neighbor s r mac) = upsert (r_nh r) e' (ncache s) /\
+             lpm (bs (add_neighbor s r mac)) = upsert (r_if r, r_pfx r) (n_gate e') (lpm (bs s)) /\
+             match lookup (r_nh r) (ncache s) with Some e => gm e' = gm e | None => n_mac e' = mac end.
 Proof.
-  exists [0], h_overwritten. split; [vm_compute; reflexivity|].
-  intros M. destruct (proj2 (M 0 0)) as (g & Hg).
-  - exists 1, 101. split; vm_compute; reflexivity.
-  - vm_compute in Hg. discriminate.
+  unfold add_neighbor, gate_of. destruct (lookup (r_nh r) (ncache s)) as [e|]; eexists; cbn [ncache bs];
+    (split; [reflexivity|]); rewrite ?create_and_link_lpm; cbn [lpm_add lpm n_gate]; split; reflexivity.
 Qed.
 
-(* F29b: a route is deleted while its next hop is unresolved; it is installed when the neighbour appears *)
-Definition h_deleted_pending : list event :=
-  [NewRoute (Route 0 1 0); DelRoute (Route 0 1 0); NewNeigh 1 101].
-Lemma mirror_refuted_deleted_pending :
-  exists ifs h, run_ok but_nodelpending (init ifs) h = true /\ ~ mirror (run (init ifs) h).
+(* hp: prefixes whose "installed" clause is suspended, hn: next hop whose "waiting" clause is
+   suspended, between the kernel-side update of an event and the end of the handler *)
+Record InvM (s : st) (uf : bool) (hp : list N) (hn : option N) : Prop := {
+  mA2 : forall nh l r, hn <> Some nh -> lookup nh (unres s) = Some l -> In r l ->
+          r_nh r = nh /\ lookup (r_pfx r) (kern s) = Some (nh, r_if r) /\ lookup nh (kneigh s) = None;
+  mND : forall nh l, lookup nh (unres s) = Some l -> NoDup l;
+  mA3 : forall p nh i, lookup p (kern s) = Some (nh, i) -> lookup nh (kneigh s) = None ->
+          exists l, lookup nh (unres s) = Some l /\ In (Route p nh i) l;
+  mA4 : forall nh e, lookup nh (ncache s) = Some e -> lookup nh (kneigh s) = Some (n_mac e);
+  mA5 : forall i p g, lookup (i, p) (lpm (bs s)) = Some g ->
+          exists nh e, lookup p (kern s) = Some (nh, i) /\ lookup nh (ncache s) = Some e /\ g = n_gate e;
+  mA6 : forall p nh i mac, ~ In p hp -> lookup p (kern s) = Some (nh, i) -> lookup nh (kneigh s) = Some mac ->
+          exists e, lookup nh (ncache s) = Some e /\ lookup (i, p) (lpm (bs s)) = Some (n_gate e);
+  (* only demanded (uf = true) on histories in which no resolved next hop loses its last route *)
+  mA11 : uf = true -> forall nh e, lookup nh (ncache s) = Some e -> exists p i, lookup p (kern s) = Some (nh, i);
+  mU : no_updr s }.
+
+Ltac inj :=
+  repeat match goal with
+         | H : Some _ = Some _ |- _ => injection H; clear H; intros; subst
+         | H : (_, _) = (_, _) |- _ => injection H; clear H; intros; subst
+         end.
+Ltac prj := cbn [n_gate n_mac n_count r_pfx r_nh r_if fst snd gm] in *.
+
+Lemma fillM uf s r mac hp hn :
+  InvM s uf (r_pfx r :: hp) hn ->
+  lookup (r_pfx r) (kern s) = Some (r_nh r, r_if r) -> lookup (r_nh r) (kneigh s) = Some mac ->
+  InvM (add_neighbor s r mac) uf hp hn.
 Proof.
-  exists [0], h_deleted_pending. split; [vm_compute; reflexivity|].
-  intros M. destruct (proj1 (M 0 0)) as (nh & mac & Hk & _).
-  - exists 0. vm_compute. reflexivity.
-  - vm_compute in Hk. discriminate.
+  intros I Hkr Hkn. destruct (add_neighbor_shape s r mac) as (e' & Hnc & Hlpm & Hgm).
+  destruct (add_neighbor_same s r mac) as (_ & Hu & Hkn' & Hkr' & _).
+  assert (Hmac : lookup (r_nh r) (kneigh s) = Some (n_mac e')).
+  { destruct (lookup (r_nh r) (ncache s)) as [e|] eqn:E.
+    - rewrite (mA4 _ _ _ _ I _ _ E). unfold gm in Hgm. congruence.
+    - congruence. }
+  assert (Hgate : forall e, lookup (r_nh r) (ncache s) = Some e -> n_gate e' = n_gate e).
+  { intros e E. rewrite E in Hgm. unfold gm in Hgm. congruence. }
+  constructor; rewrite ?Hu, ?Hkn', ?Hkr', ?Hnc, ?Hlpm.
+  - apply (mA2 _ _ _ _ I).
+  - apply (mND _ _ _ _ I).
+  - apply (mA3 _ _ _ _ I).
+  - intros nh e. maps. eqb_cases; [intros [= <-]; subst; exact Hmac|apply (mA4 _ _ _ _ I)].
+  - intros i p g. maps. destruct (eqb_spec (i, p) (r_if r, r_pfx r)) as [Hk|Hk].
+    + intros [= <-]. injection Hk as -> ->. exists (r_nh r), e'. maps.
+      destruct (eqb_spec (r_nh r) (r_nh r)); [auto|congruence].
+    + intros H. destruct (mA5 _ _ _ _ I _ _ _ H) as (nh & e & K & Ne & ->). exists nh.
+      destruct (eqb_spec nh (r_nh r)) as [->|Hn].
+      * exists e'. maps. destruct (eqb_spec (r_nh r) (r_nh r)); [|congruence]. split; [auto|]. split; [auto|].
+        symmetry. apply Hgate. exact Ne.
+      * exists e. maps. destruct (eqb_spec nh (r_nh r)); [congruence|auto].
+  - intros p nh i m Hp K Kn. destruct (eqb_spec p (r_pfx r)) as [->|Hne].
+    + rewrite Hkr in K. injection K as <- <-. exists e'. maps.
+      destruct (eqb_spec (r_nh r) (r_nh r)); [|congruence].
+      destruct (eqb_spec (r_if r, r_pfx r) (r_if r, r_pfx r)); [auto|congruence].
+    + destruct (mA6 _ _ _ _ I p nh i m) as (e & Ne & L); auto.
+      { cbn. intros [H|H]; [congruence|auto]. }
+      destruct (eqb_spec nh (r_nh r)) as [->|Hn].
+      * exists e'. maps. destruct (eqb_spec (r_nh r) (r_nh r)); [|congruence].
+        destruct (eqb_spec (i, p) (r_if r, r_pfx r)); [congruence|]. rewrite (Hgate _ Ne). auto.
+      * exists e. maps. destruct (eqb_spec nh (r_nh r)); [congruence|].
+        destruct (eqb_spec (i, p) (r_if r, r_pfx r)); [congruence|auto].
+  - intros U nh e. maps. eqb_cases; [intros _; subst; eauto|apply (mA11 _ _ _ _ I U)].
+  - apply no_updr_nn, (mU _ _ _ _ I).
 Qed.
 
-(* F29b, second face: the stale route is installed OVER the live route of another next hop, which
-   then shares next hop 1's gate and rewrite module *)
-Definition h_stale_over_live : list event :=
-  [NewRoute (Route 0 1 0); DelRoute (Route 0 1 0); NewNeigh 2 102; NewRoute (Route 0 2 0); NewNeigh 1 101;
-   NewRoute (Route 1 1 0)].
-Lemma shared_gate_refuted_stale :
-  exists ifs h, run_ok but_nodelpending (init ifs) h = true /\
-                ~ routes_share (run (init ifs) h) /\ ~ obs_gates_distinct (run (init ifs) h).
+Lemma fillM_fold uf mac hn l : forall s,
+  InvM s uf (map r_pfx l) hn ->
+  (forall r, In r l -> lookup (r_pfx r) (kern s) = Some (r_nh r, r_if r) /\ lookup (r_nh r) (kneigh s) = Some mac) ->
+  InvM (fold_left (fun s' r => add_neighbor s' r mac) l s) uf [] hn.
 Proof.
-  exists [0], h_stale_over_live. split; [vm_compute; reflexivity|]. split.
-  - intros R. destruct (R 0 2 0 1) as (e & He & Hg & Hk & _); try (vm_compute; reflexivity).
-    vm_compute in He. injection He as <-. vm_compute in Hg. discriminate.
-  - intros D. apply (D 0 1 2 1 0 1 1); try (vm_compute; reflexivity). discriminate.
+  induction l as [|r t IH]; intros s I H; cbn; [exact I|].
+  apply IH.
+  - apply fillM; [exact I| |]; apply H; now left.
+  - intros r0 Hr0. destruct (add_neighbor_same s r mac) as (_ & _ & -> & -> & _). apply H. now right.
 Qed.
+
+(* --- NEWROUTE *)
+Lemma invM_kern_add_known uf s r mac :
+  InvM s uf [] None -> lookup (r_pfx r) (kern s) = None -> lookup (r_nh r) (kneigh s) = Some mac ->
+  InvM (kern_add s r) uf [r_pfx r] None.
+Proof.
+  intros I Hfresh Hk.
+  constructor; cbn [kern_add unres kern kneigh ncache bs lpm].
+  - intros nh l r0 _ H Hin. destruct (mA2 _ _ _ _ I nh l r0 ltac:(discriminate) H Hin) as (A & B & C).
+    split; [auto|]. split; [|auto]. maps. eqb_cases; congruence.
+  - apply (mND _ _ _ _ I).
+  - intros p nh i. maps. eqb_cases; [intros [= <- <-] Hn; congruence|apply (mA3 _ _ _ _ I)].
+  - apply (mA4 _ _ _ _ I).
+  - intros i p g H. destruct (mA5 _ _ _ _ I _ _ _ H) as (nh & e & K & Ne & Hg). exists nh, e.
+    split; [|auto]. maps. eqb_cases; congruence.
+  - intros p nh i m Hp. maps. eqb_cases; [exfalso; apply Hp; now left|]. apply (mA6 _ _ _ _ I). intros [].
+  - intros U nh e H. destruct (mA11 _ _ _ _ I U nh e H) as (p0 & i0 & K). exists p0, i0. maps. eqb_cases; congruence.
+  - exact (mU _ _ _ _ I).
+Qed.
+
+Lemma invM_probe uf s r :
+  InvM s uf [] None -> lookup (r_pfx r) (kern s) = None -> lookup (r_nh r) (kneigh s) = None ->
+  InvM (probe_addr (kern_add s r) r) uf [] None.
+Proof.
+  intros I Hfresh Hk. unfold probe_addr. change (unres (kern_add s r)) with (unres s).
+  set (l0 := match lookup (r_nh r) (unres s) with Some l => l | None => [] end).
+  assert (Hl0 : forall x, In x l0 -> r_nh x = r_nh r /\ lookup (r_pfx x) (kern s) = Some (r_nh r, r_if x) /\ x <> r).
+  { intros x Hx. unfold l0 in Hx. destruct (lookup (r_nh r) (unres s)) as [l|] eqn:E; [|destruct Hx].
+    destruct (mA2 _ _ _ _ I _ _ x ltac:(discriminate) E Hx) as (A & B & _). repeat split; auto. intros ->. congruence. }
+  assert (Hnd : NoDup l0).
+  { unfold l0. destruct (lookup (r_nh r) (unres s)) as [l|] eqn:E; [exact (mND _ _ _ _ I _ _ E)|constructor]. }
+  assert (Hmem : mem r l0 = false).
+  { destruct (mem r l0) eqn:M; [|reflexivity]. apply mem_In in M. destruct (Hl0 _ M) as (_ & _ & H). congruence. }
+  rewrite Hmem.
+  constructor; cbn [kern_add unres kern kneigh ncache bs lpm].
+  - intros nh l x _ H Hin. rewrite lookup_upsert in H. destruct (eqb_spec nh (r_nh r)) as [->|Hn].
+    + injection H as <-. apply in_app_or in Hin. destruct Hin as [Hin|[<-|[]]].
+      * destruct (Hl0 _ Hin) as (A & B & C). split; [auto|]. split; [|auto].
+        rewrite lookup_upsert. destruct (eqb_spec (r_pfx x) (r_pfx r)); congruence.
+      * split; [auto|]. split; [|auto]. rewrite lookup_upsert. destruct (eqb_spec (r_pfx r) (r_pfx r)); congruence.
+    + destruct (mA2 _ _ _ _ I nh l x ltac:(discriminate) H Hin) as (A & B & C).
+      split; [auto|]. split; [|auto]. rewrite lookup_upsert. destruct (eqb_spec (r_pfx x) (r_pfx r)); congruence.
+  - intros nh l. maps. eqb_cases; [|apply (mND _ _ _ _ I)].
+    intros [= <-]. apply NoDup_snoc; [exact Hnd|]. intros H. destruct (Hl0 _ H) as (_ & _ & C). congruence.
+  - intros p nh i. maps. destruct (eqb_spec p (r_pfx r)) as [->|Hp].
+    + intros [= <- <-] _. destruct (eqb_spec (r_nh r) (r_nh r)); [|congruence]. eexists. split; [reflexivity|].
+      apply in_or_app. right. left. symmetry. apply route_eta.
+    + intros K Kn. destruct (mA3 _ _ _ _ I _ _ _ K Kn) as (l & Hl & Hin).
+      destruct (eqb_spec nh (r_nh r)) as [->|Hn].
+      * eexists. split; [reflexivity|]. apply in_or_app. left. unfold l0. rewrite Hl. exact Hin.
+      * exists l. auto.
+  - apply (mA4 _ _ _ _ I).
+  - intros i p g H. destruct (mA5 _ _ _ _ I _ _ _ H) as (nh & e & K & Ne & Hg). exists nh, e.
+    split; [|auto]. maps. eqb_cases; congruence.
+  - intros p nh i m _. maps. eqb_cases; [intros [= <- <-] Kn; congruence|]. apply (mA6 _ _ _ _ I). intros [].
+  - intros U nh e H. destruct (mA11 _ _ _ _ I U nh e H) as (p0 & i0 & K). exists p0, i0. maps. eqb_cases; congruence.
+  - exact (mU _ _ _ _ I).
+Qed.
+
+(* --- DELROUTE *)
+Lemma kern_has_true s r : kern_has s r = true -> lookup (r_pfx r) (kern s) = Some (r_nh r, r_if r).
+Proof.
+  unfold kern_has. destruct (lookup (r_pfx r) (kern s)) as [x|]; [|discriminate].
+  destruct (eqb_spec x (r_nh r, r_if r)); [congruence|discriminate].
+Qed.
+
+Lemma delete_shape s r e g :
+  lookup (r_nh r) (ncache s) = Some e -> lookup (r_if r, r_pfx r) (lpm (bs s)) = Some g -> no_updr s ->
+  delete_route_entry s r =
+  set_nc (set_bs s (Bess (remove (r_if r, r_pfx r) (lpm (bs s))) (upd (bs s)) (links (bs s))))
+         (upsert (r_nh r) (Neigh (n_gate e) (n_mac e) (n_count e - 1)) (ncache s)).
+Proof.
+  intros He Hl Hn. unfold delete_route_entry, lpm_del. rewrite He, Hl. cbn [n_count].
+  destruct (Z.eqb (n_count e - 1) 0); [|reflexivity].
+  unfold destroy. cbn [upd]. rewrite (Hn (r_if r) (n_mac e)). reflexivity.
+Qed.
+
+Lemma keepuser_other s r mac :
+  managed s (r_if r) = true -> lookup (r_nh r) (kneigh s) = Some mac -> keepuser_ev s (DelRoute r) = true ->
+  exists p i, p <> r_pfx r /\ lookup p (kern s) = Some (r_nh r, i).
+Proof.
+  intros M Hk H. cbn [keepuser_ev] in H. rewrite M, Hk in H. cbn [negb orb is_none] in H.
+  apply existsb_exists in H. destruct H as ([p v] & _ & H). cbn [fst] in H.
+  apply andb_true_iff in H. destruct H as (H1 & H2).
+  destruct (lookup p (kern s)) as [[nh i]|] eqn:E; [|discriminate].
+  exists p, i. eqb_cases; try discriminate. subst. auto.
+Qed.
+
+Lemma invM_delete_known uf s r mac :
+  InvM s uf [] None -> kern_has s r = true -> lookup (r_nh r) (kneigh s) = Some mac ->
+  (uf = true -> exists p i, p <> r_pfx r /\ lookup p (kern s) = Some (r_nh r, i)) ->
+  InvM (delete_route_entry (kern_del s r) r) uf [] None.
+Proof.
+  intros I Hh Hk Hkeep. pose proof (kern_has_true _ _ Hh) as Hkr.
+  destruct (mA6 _ _ _ _ I _ _ _ _ ltac:(intros []) Hkr Hk) as (e & He & Hl).
+  unfold kern_del. rewrite Hh.
+  rewrite (delete_shape _ r e (n_gate e)); cbn [ncache bs]; auto; [|exact (mU _ _ _ _ I)].
+  constructor; cbn [set_nc set_bs unres kern kneigh ncache bs lpm upd].
+  - intros nh l x _ H Hin. destruct (mA2 _ _ _ _ I nh l x ltac:(discriminate) H Hin) as (A & B & C).
+    split; [auto|]. split; [|auto]. maps. eqb_cases; congruence.
+  - apply (mND _ _ _ _ I).
+  - intros p nh i. maps. eqb_cases; [discriminate|apply (mA3 _ _ _ _ I)].
+  - intros nh e0. maps. eqb_cases; [intros [= <-]; subst; cbn [n_mac]; apply (mA4 _ _ _ _ I _ _ He)|apply (mA4 _ _ _ _ I)].
+  - intros i p g. rewrite lookup_remove. destruct (eqb_spec (i, p) (r_if r, r_pfx r)) as [Hkey|Hkey]; [discriminate|].
+    intros H. destruct (mA5 _ _ _ _ I _ _ _ H) as (nh & e0 & K & Ne & ->).
+    assert (p <> r_pfx r) by (intros ->; rewrite Hkr in K; injection K as <- <-; congruence).
+    destruct (eqb_spec nh (r_nh r)) as [->|Hn].
+    + exists (r_nh r), (Neigh (n_gate e) (n_mac e) (n_count e - 1)). maps.
+      destruct (eqb_spec p (r_pfx r)); [congruence|]. destruct (eqb_spec (r_nh r) (r_nh r)); [|congruence].
+      cbn [n_gate]. split; [auto|]. split; [auto|congruence].
+    + exists nh, e0. maps. destruct (eqb_spec p (r_pfx r)); [congruence|].
+      destruct (eqb_spec nh (r_nh r)); [congruence|auto].
+  - intros p nh i m _. rewrite lookup_remove. destruct (eqb_spec p (r_pfx r)) as [->|Hp]; [discriminate|].
+    intros K Kn. destruct (mA6 _ _ _ _ I _ _ _ _ ltac:(intros []) K Kn) as (e0 & Ne & L).
+    destruct (eqb_spec nh (r_nh r)) as [->|Hn].
+    + exists (Neigh (n_gate e) (n_mac e) (n_count e - 1)). maps.
+      destruct (eqb_spec (r_nh r) (r_nh r)); [|congruence].
+      destruct (eqb_spec (i, p) (r_if r, r_pfx r)); [congruence|]. cbn [n_gate]. split; [auto|congruence].
+    + exists e0. maps. destruct (eqb_spec nh (r_nh r)); [congruence|].
+      destruct (eqb_spec (i, p) (r_if r, r_pfx r)); [congruence|auto].
+  - intros U nh e0. maps. destruct (eqb_spec nh (r_nh r)) as [->|Hn].
+    + intros _. destruct (Hkeep U) as (p0 & i0 & Hp0 & K). exists p0, i0. maps. eqb_cases; congruence.
+    + intros H. destruct (mA11 _ _ _ _ I U nh e0 H) as (p0 & i0 & K). exists p0, i0. maps. eqb_cases; [|exact K].
+      subst. congruence.
+  - exact (mU _ _ _ _ I).
+Qed.
+
+(* deleting a route that is still waiting for its next hop takes it off the waiting list *)
+Lemma invM_delete_pending uf s r :
+  InvM s uf [] None -> kern_has s r = true -> lookup (r_nh r) (kneigh s) = None ->
+  InvM (delete_route_entry (kern_del s r) r) uf [] None.
+Proof.
+  intros I Hh Hk. pose proof (kern_has_true _ _ Hh) as Hkr.
+  destruct (mA3 _ _ _ _ I _ _ _ Hkr Hk) as (l & Hl & Hin). rewrite route_eta in Hin.
+  pose proof (mND _ _ _ _ I _ _ Hl) as Hnd.
+  assert (Hnc : lookup (r_nh r) (ncache s) = None).
+  { destruct (lookup (r_nh r) (ncache s)) as [e|] eqn:E; [|reflexivity]. rewrite (mA4 _ _ _ _ I _ _ E) in Hk. discriminate. }
+  destruct (remove1_NoDup r l Hnd) as (Hnd' & Hnotin).
+  unfold kern_del. rewrite Hh. unfold delete_route_entry. cbn [ncache unres]. rewrite Hnc, Hl.
+  rewrite (proj2 (mem_In r l) Hin).
+  (* both outcomes of the emptiness test have the same lookups *)
+  set (u' := match remove1 r l with [] => remove (r_nh r) (unres s) | _ :: _ => upsert (r_nh r) (remove1 r l) (unres s) end).
+  assert (Hu' : forall nh, lookup nh u' = if eqb nh (r_nh r) then match remove1 r l with [] => None | x => Some x end
+                                          else lookup nh (unres s)).
+  { intros nh. unfold u'. destruct (remove1 r l); maps; reflexivity. }
+  match goal with |- InvM ?st _ _ _ => assert (Hst : st = set_unres (St (cfg_ifs s) (ncache s) (unres s) (gatecnt s) (kneigh s)
+      (remove (r_pfx r) (kern s)) (nhif s) (bs s) (pings s)) u') by (unfold u'; destruct (remove1 r l); reflexivity) end.
+  rewrite Hst. clear Hst.
+  constructor; cbn [set_unres unres kern kneigh ncache bs lpm].
+  - intros nh l0 x _ H Hx. rewrite Hu' in H. destruct (eqb_spec nh (r_nh r)) as [->|Hn].
+    + assert (l0 = remove1 r l) by (destruct (remove1 r l); congruence). subst l0.
+      destruct (mA2 _ _ _ _ I _ _ x ltac:(discriminate) Hl (remove1_In _ _ _ Hx)) as (A & B & C).
+      split; [auto|]. split; [|auto]. maps. destruct (eqb_spec (r_pfx x) (r_pfx r)) as [Hp|]; [|exact B].
+      exfalso. apply Hnotin. assert (x = r); [|subst x; exact Hx]. rewrite Hp, Hkr in B. injection B as B.
+      destruct x, r; cbn in *; congruence.
+    + destruct (mA2 _ _ _ _ I nh l0 x ltac:(discriminate) H Hx) as (A & B & C).
+      split; [auto|]. split; [|auto]. maps. destruct (eqb_spec (r_pfx x) (r_pfx r)) as [Hp|]; [|exact B].
+      rewrite Hp, Hkr in B. congruence.
+  - intros nh l0 H. rewrite Hu' in H. destruct (eqb_spec nh (r_nh r)) as [->|Hn]; [|exact (mND _ _ _ _ I _ _ H)].
+    assert (l0 = remove1 r l) by (destruct (remove1 r l); congruence). subst l0. exact Hnd'.
+  - intros p nh i. rewrite lookup_remove. destruct (eqb_spec p (r_pfx r)) as [->|Hp]; [discriminate|].
+    intros K Kn. destruct (mA3 _ _ _ _ I _ _ _ K Kn) as (l0 & Hl0 & Hin0). rewrite Hu'.
+    destruct (eqb_spec nh (r_nh r)) as [->|Hn]; [|eauto].
+    assert (l0 = l) by congruence. subst l0.
+    assert (Hin' : In (Route p (r_nh r) i) (remove1 r l)).
+    { apply remove1_keeps; [exact Hin0|]. intros Heq. apply Hp. rewrite <- Heq. reflexivity. }
+    exists (remove1 r l). split; [|exact Hin']. destruct (remove1 r l); [destruct Hin'|reflexivity].
+  - apply (mA4 _ _ _ _ I).
+  - intros i p g H. destruct (mA5 _ _ _ _ I _ _ _ H) as (nh & e & K & Ne & Hg). exists nh, e.
+    split; [|auto]. maps. destruct (eqb_spec p (r_pfx r)) as [->|]; [|exact K].
+    rewrite Hkr in K. injection K as <- <-. congruence.
+  - intros p nh i m _. rewrite lookup_remove. destruct (eqb_spec p (r_pfx r)); [discriminate|]. apply (mA6 _ _ _ _ I). intros [].
+  - intros U nh e H. destruct (mA11 _ _ _ _ I U nh e H) as (p0 & i0 & K). exists p0, i0. maps.
+    destruct (eqb_spec p0 (r_pfx r)) as [->|]; [|exact K]. rewrite Hkr in K. injection K as <- <-. congruence.
+  - exact (mU _ _ _ _ I).
+Qed.
+
+(* --- NEWNEIGH *)
+Lemma invM_newneigh uf s nh mac :
+  InvM s uf [] None -> wf_ev s (NewNeigh nh mac) = true -> InvM (new_neigh s nh mac) uf [] None.
+Proof.
+  intros I Hw. cbn [wf_ev] in Hw. unfold new_neigh.
+  set (s1 := St (cfg_ifs s) (ncache s) (unres s) (gatecnt s) (upsert nh mac (kneigh s)) (kern s) (nhif s) (bs s) (pings s)).
+  change (unres s1) with (unres s).
+  (* the state after the kernel-side update, with the clauses of nh suspended *)
+  assert (I1 : forall l, lookup nh (unres s) = Some l -> InvM s1 uf (map r_pfx l) (Some nh)).
+  { intros l El. unfold s1. constructor; cbn [unres kern kneigh ncache bs].
+    - intros nh0 l0 x Hne H Hx. destruct (mA2 _ _ _ _ I nh0 l0 x ltac:(discriminate) H Hx) as (A & B & C).
+      split; [auto|]. split; [auto|]. maps. destruct (eqb_spec nh0 nh); congruence.
+    - apply (mND _ _ _ _ I).
+    - intros p nh0 i K. maps. destruct (eqb_spec nh0 nh); [discriminate|apply (mA3 _ _ _ _ I _ _ _ K)].
+    - intros nh0 e H. pose proof (mA4 _ _ _ _ I _ _ H) as Hm. maps. destruct (eqb_spec nh0 nh) as [->|]; [|exact Hm].
+      rewrite Hm in Hw. apply N.eqb_eq in Hw. congruence.
+    - apply (mA5 _ _ _ _ I).
+    - intros p nh0 i m Hp K. maps. destruct (eqb_spec nh0 nh) as [->|Hn]; [|apply (mA6 _ _ _ _ I); [intros []|exact K]].
+      intros _. destruct (lookup nh (kneigh s)) as [m'|] eqn:Ek.
+      + apply (mA6 _ _ _ _ I _ _ _ m' ltac:(intros []) K Ek).
+      + destruct (mA3 _ _ _ _ I _ _ _ K Ek) as (l0 & Hl0 & Hin). exfalso. apply Hp.
+        assert (l0 = l) by congruence. subst l0. apply (in_map r_pfx) in Hin. exact Hin.
+    - apply (mA11 _ _ _ _ I).
+    - exact (mU _ _ _ _ I). }
+  destruct (lookup nh (unres s)) as [[|r t]|] eqn:Eu.
+  - (* an empty list is falsy *)
+    assert (Hnone : lookup nh (kneigh s) <> None \/ forall p i, lookup p (kern s) <> Some (nh, i)).
+    { destruct (lookup nh (kneigh s)) eqn:Ek; [left; discriminate|right]. intros p i K.
+      destruct (mA3 _ _ _ _ I _ _ _ K Ek) as (l0 & Hl0 & Hin). rewrite Eu in Hl0. injection Hl0 as <-. destruct Hin. }
+    pose proof (I1 [] eq_refl) as J. cbn [map] in J.
+    constructor; try apply J.
+    + intros nh0 l0 x _ H Hx. destruct (eqb_spec nh0 nh) as [->|Hn].
+      * unfold s1 in H. cbn [unres] in H. rewrite Eu in H. injection H as <-. destruct Hx.
+      * apply (mA2 _ _ _ _ J nh0 l0 x); [congruence|exact H|exact Hx].
+  - (* every waiting route is installed, then the key goes *)
+    set (l := r :: t) in *.
+    assert (Hall : forall x, In x l -> r_nh x = nh /\ lookup (r_pfx x) (kern s) = Some (nh, r_if x) /\ lookup nh (kneigh s) = None).
+    { intros x Hx. apply (mA2 _ _ _ _ I nh l x); [discriminate|exact Eu|exact Hx]. }
+    assert (I2 : InvM (fold_left (fun s' x => add_neighbor s' x mac) l s1) uf [] (Some nh)).
+    { apply fillM_fold; [apply I1; reflexivity|]. intros x Hx. destruct (Hall x Hx) as (A & B & C).
+      unfold s1. cbn [kern kneigh]. rewrite A. split; [exact B|]. maps. destruct (eqb_spec nh nh); congruence. }
+    destruct (fold_same mac l s1) as (_ & Hu & Hk & Hkr & _). cbn zeta in Hu, Hk, Hkr.
+    set (s2 := fold_left _ l s1) in *.
+    constructor; cbn [set_unres unres kern kneigh ncache bs]; try apply I2.
+    + intros nh0 l0 x _ H Hx. rewrite lookup_remove in H. destruct (eqb_spec nh0 nh); [discriminate|].
+      apply (mA2 _ _ _ _ I2 nh0 l0 x); [congruence|exact H|exact Hx].
+    + intros nh0 l0 H. rewrite lookup_remove in H. destruct (eqb_spec nh0 nh); [discriminate|].
+      apply (mND _ _ _ _ I2 _ _ H).
+    + intros p nh0 i K Kn. destruct (mA3 _ _ _ _ I2 _ _ _ K Kn) as (l0 & Hl0 & Hin). exists l0. split; [|exact Hin].
+      rewrite lookup_remove. destruct (eqb_spec nh0 nh) as [->|]; [|exact Hl0].
+      rewrite Hk in Kn. unfold s1 in Kn. cbn [kneigh] in Kn. rewrite lookup_upsert in Kn.
+      destruct (eqb_spec nh nh); congruence.
+  - (* nothing was waiting *)
+    assert (Hnone : forall p i, lookup p (kern s) = Some (nh, i) -> lookup nh (kneigh s) <> None).
+    { intros p i K Ek. destruct (mA3 _ _ _ _ I _ _ _ K Ek) as (l0 & Hl0 & _). congruence. }
+    unfold s1. constructor; cbn [unres kern kneigh ncache bs].
+    + intros nh0 l0 x _ H Hx. destruct (mA2 _ _ _ _ I nh0 l0 x ltac:(discriminate) H Hx) as (A & B & C).
+      split; [auto|]. split; [auto|]. maps. destruct (eqb_spec nh0 nh); congruence.
+    + apply (mND _ _ _ _ I).
+    + intros p nh0 i K. maps. destruct (eqb_spec nh0 nh); [discriminate|apply (mA3 _ _ _ _ I _ _ _ K)].
+    + intros nh0 e H. pose proof (mA4 _ _ _ _ I _ _ H) as Hm. maps. destruct (eqb_spec nh0 nh) as [->|]; [|exact Hm].
+      rewrite Hm in Hw. apply N.eqb_eq in Hw. congruence.
+    + apply (mA5 _ _ _ _ I).
+    + intros p nh0 i m _ K. maps. destruct (eqb_spec nh0 nh) as [->|Hn]; [|apply (mA6 _ _ _ _ I); [intros []|exact K]].
+      intros _. destruct (lookup nh (kneigh s)) as [m'|] eqn:Ek; [|exfalso; exact (Hnone _ _ K eq_refl)].
+      apply (mA6 _ _ _ _ I _ _ _ m' ltac:(intros []) K Ek).
+    + apply (mA11 _ _ _ _ I).
+    + exact (mU _ _ _ _ I).
+Qed.
+
+(* --- one step, whole histories *)
+Lemma is_none_true {A} (o : option A) : is_none o = true -> o = None.
+Proof. destruct o; [discriminate|reflexivity]. Qed.
+
+Lemma invM_step uf s ev :
+  InvM s uf [] None -> wf_ev s ev = true -> (uf = true -> keepuser_ev s ev = true) -> InvM (step s ev) uf [] None.
+Proof.
+  intros I Hw Hkeep. destruct ev as [r|r|nh mac|]; cbn [step].
+  - destruct (managed s (r_if r)) eqn:M; [|exact I].
+    cbn [wf_ev] in Hw. rewrite M in Hw. cbn [negb orb] in Hw. apply is_none_true in Hw.
+    unfold add_new_route_entry. change (kneigh (kern_add s r)) with (kneigh s).
+    destruct (lookup (r_nh r) (kneigh s)) as [mac|] eqn:Ek.
+    + apply fillM.
+      * apply invM_kern_add_known with (mac := mac); assumption.
+      * unfold kern_add. cbn [kern]. rewrite lookup_upsert. destruct (eqb_spec (r_pfx r) (r_pfx r)); congruence.
+      * exact Ek.
+    + apply invM_probe; assumption.
+  - destruct (managed s (r_if r)) eqn:M; [|exact I].
+    cbn [wf_ev] in Hw. rewrite M in Hw. cbn [negb orb] in Hw.
+    destruct (lookup (r_nh r) (kneigh s)) as [mac|] eqn:Ek.
+    + apply invM_delete_known with (mac := mac); try assumption.
+      intros U. apply keepuser_other with (mac := mac); auto.
+    + apply invM_delete_pending; assumption.
+  - apply invM_newneigh; assumption.
+  - exact I.
+Qed.
+
+Lemma invM_init uf ifs : InvM (init ifs) uf [] None.
+Proof. constructor; cbn; try (intros; discriminate). apply no_updr_init. Qed.
+
+Lemma invM_run h : forall s, InvM s false [] None -> run_ok wf_ev s h = true -> InvM (run s h) false [] None.
+Proof.
+  induction h as [|ev h IH]; intros s I Hok; cbn in *; [exact I|].
+  apply andb_true_iff in Hok. destruct Hok as (H1 & H2).
+  apply IH; [apply invM_step; [assumption|assumption|discriminate]|exact H2].
+Qed.
+Lemma invMu_run h : forall s, InvM s true [] None -> run_ok wfu_ev s h = true -> InvM (run s h) true [] None.
+Proof.
+  induction h as [|ev h IH]; intros s I Hok; cbn in *; [exact I|].
+  apply andb_true_iff in Hok. destruct Hok as (H1 & H2). unfold wfu_ev in H1. apply andb_true_iff in H1.
+  destruct H1 as (Ha & Hb). apply IH; [apply invM_step; auto|exact H2].
+Qed.
+
+(* ================================================================ 4. gates lead to the right rewrite module ("bound" histories) *)
+(* gate g of <iface i>Routes leads to the Update module that writes mac, which feeds <iface i>Merge *)
+Definition path (b : bess) (i g mac : N) : Prop :=
+  lookup (MRoutes i, g) (links b) = Some (MUpdI i mac, 0) /\
+  lookup (MUpdI i mac) (upd b) = Some mac /\
+  lookup (MUpdI i mac, 0) (links b) = Some (MMerge i, 0).
+
+Record InvP (s : st) (uf : bool) : Prop := {
+  pA1 : forall p nh i, lookup p (kern s) = Some (nh, i) -> lookup nh (nhif s) = Some i;
+  pA4 : forall nh e, lookup nh (ncache s) = Some e ->
+          exists i, lookup nh (nhif s) = Some i /\ path (bs s) i (n_gate e) (n_mac e);
+  pA12 : uf = true -> forall u mac, lookup u (upd (bs s)) = Some mac ->
+           exists nh e i, lookup nh (ncache s) = Some e /\ lookup nh (nhif s) = Some i /\ u = MUpdI i (n_mac e);
+  pB : BInv s }.
+
+Lemma nhif_kern_add s r k v :
+  lookup k (nhif s) = Some v -> lookup k (nhif (kern_add s r)) = Some v.
+Proof.
+  intros H. unfold kern_add. cbn [nhif]. destruct (lookup (r_nh r) (nhif s)) eqn:E; [exact H|].
+  maps. eqb_cases; congruence.
+Qed.
+Lemma nhif_kern_add_nh s r :
+  bound_ev s (NewRoute r) = true -> managed s (r_if r) = true ->
+  lookup (r_nh r) (nhif (kern_add s r)) = Some (r_if r).
+Proof.
+  intros Hb M. unfold bound_ev in Hb. rewrite M in Hb. cbn [negb orb] in Hb.
+  unfold kern_add. cbn [nhif]. destruct (lookup (r_nh r) (nhif s)) as [i|] eqn:E.
+  - eqb_cases; congruence.
+  - maps. eqb_cases; congruence.
+Qed.
+
+Lemma invP_kern_add uf s r :
+  InvP s uf -> managed s (r_if r) = true -> bound_ev s (NewRoute r) = true -> InvP (kern_add s r) uf.
+Proof.
+  intros J M Hb. pose proof (nhif_kern_add_nh s r Hb M) as Hnh. pose proof (nhif_kern_add s r) as Hext.
+  constructor.
+  - intros p nh i. unfold kern_add at 1. cbn [kern]. maps. eqb_cases.
+    + intros [= <- <-]. exact Hnh.
+    + intros K. apply Hext. exact (pA1 _ _ J _ _ _ K).
+  - intros nh e H. destruct (pA4 _ _ J nh e H) as (i & Hi & Hp). exists i. split; [apply Hext; exact Hi|exact Hp].
+  - intros U u m H. destruct (pA12 _ _ J U u m H) as (nh & e & i & A & B & C). exists nh, e, i. auto.
+  - exact (pB _ _ J).
+Qed.
+
+Lemma invP_same uf s s' :
+  InvP s uf ->
+  (forall p x, lookup p (kern s') = Some x -> lookup p (kern s) = Some x) ->
+  nhif s' = nhif s -> gatecnt s' = gatecnt s -> upd (bs s') = upd (bs s) -> links (bs s') = links (bs s) ->
+  (forall nh, option_map gm (lookup nh (ncache s')) = option_map gm (lookup nh (ncache s))) ->
+  InvP s' uf.
+Proof.
+  intros J Hk Hn Hg Hu Hl Hc.
+  assert (Hfw : forall nh e', lookup nh (ncache s') = Some e' -> exists e, lookup nh (ncache s) = Some e /\ gm e = gm e').
+  { intros nh e' H. specialize (Hc nh). rewrite H in Hc. destruct (lookup nh (ncache s)) as [e|]; [|discriminate].
+    cbn in Hc. exists e. split; congruence. }
+  assert (Hbw : forall nh e, lookup nh (ncache s) = Some e -> exists e', lookup nh (ncache s') = Some e' /\ gm e = gm e').
+  { intros nh e H. specialize (Hc nh). rewrite H in Hc. destruct (lookup nh (ncache s')) as [e'|]; [|discriminate].
+    cbn in Hc. exists e'. split; congruence. }
+  constructor.
+  - intros p nh i K. rewrite Hn. exact (pA1 _ _ J _ _ _ (Hk _ _ K)).
+  - intros nh e' H. destruct (Hfw _ _ H) as (e & He & Hgm). destruct (pA4 _ _ J nh e He) as (i & Hi & Hp).
+    exists i. rewrite Hn. split; [exact Hi|]. unfold gm in Hgm. injection Hgm as <- <-.
+    unfold path in *. rewrite Hl, Hu. exact Hp.
+  - intros U u m H. rewrite Hu in H. destruct (pA12 _ _ J U u m H) as (nh & e & i & A & B & C).
+    destruct (Hbw _ _ A) as (e' & He' & Hgm). exists nh, e', i. rewrite Hn. unfold gm in Hgm. injection Hgm as _ <-. auto.
+  - destruct (pB _ _ J) as (B7 & B9 & B10). unfold BInv. rewrite Hl, Hu, Hg. split; [exact B7|]. split; [exact B9|].
+    intros u og x H. specialize (B10 u og x H). destruct u; cbn [mod_exists] in *; auto; rewrite Hu; exact B10.
+Qed.
+
+Lemma invP_add_neighbor uf s r mac :
+  InvP s uf -> lookup (r_nh r) (nhif s) = Some (r_if r) -> InvP (add_neighbor s r mac) uf.
+Proof.
+  intros J Hni. destruct (pB _ _ J) as (B7 & B9 & B10).
+  unfold add_neighbor, gate_of. destruct (lookup (r_nh r) (ncache s)) as [e|] eqn:E.
+  - (* neighbour known: only the table and the count change *)
+    apply (invP_same uf s); auto; cbn [kern nhif gatecnt bs ncache lpm_add upd links]; auto.
+    intros nh. maps. eqb_cases; [subst; rewrite E|]; reflexivity.
+  - (* new neighbour: module, links, cache entry, gate counter *)
+    set (i := r_if r) in *. set (g := getd i (gatecnt s)) in *.
+    assert (Hfree : lookup (MRoutes i, g) (links (bs s)) = None).
+    { destruct (lookup (MRoutes i, g) (links (bs s))) as [x|] eqn:El; [|reflexivity]. apply B7 in El. unfold g in El. lia. }
+    destruct (create_and_link_spec (lpm_add (bs s) i (r_pfx r) g) i g mac Hfree B9 B10) as (Hl & Hu & Hk).
+    set (b' := create_and_link _ i g mac) in *. cbn [lpm_add lpm upd links] in Hl, Hu, Hk.
+    constructor; cbn [kern nhif gatecnt bs ncache].
+    + apply (pA1 _ _ J).
+    + intros nh e'. maps. eqb_cases.
+      * intros [= <-]. cbn [n_gate n_mac]. exists i. split; [subst; exact Hni|]. unfold path. rewrite !Hk, !Hu.
+        eqb_cases; repeat split; congruence.
+      * intros H. destruct (pA4 _ _ J nh e' H) as (j & Hj & (P1 & P2 & P3)). exists j. split; [exact Hj|].
+        unfold path. rewrite !Hk, !Hu. eqb_cases; inj; repeat split; try congruence; auto.
+    + intros U u m. rewrite Hu. eqb_cases.
+      * intros [= <-]. subst u. eexists (r_nh r), _, i. maps. destruct (eqb_spec (r_nh r) (r_nh r)); [|congruence].
+        split; [reflexivity|]. split; [exact Hni|reflexivity].
+      * intros H. destruct (pA12 _ _ J U u m H) as (nh0 & e0 & i0 & A & B & C).
+        exists nh0, e0, i0. maps. destruct (eqb_spec nh0 (r_nh r)); [congruence|]. auto.
+    + unfold BInv. cbn [bs gatecnt]. split; [|split].
+      * intros i0 g0 x. rewrite Hk, getd_upsert. eqb_cases; inj; try lia; try congruence; intros H; apply B7 in H; subst; unfold g in *; lia.
+      * intros u m. rewrite Hu. eqb_cases.
+        -- intros [= <-]. subst u. exists i. split; [reflexivity|]. rewrite Hk. eqb_cases; congruence.
+        -- intros H. destruct (B9 _ _ H) as (j & -> & Hj). exists j. split; [reflexivity|]. rewrite Hk. eqb_cases; inj; congruence.
+      * intros u og x. rewrite Hk. destruct u; cbn [mod_exists]; auto; rewrite Hu; eqb_cases; inj; try congruence; auto;
+          intros H; apply B10 in H; cbn [mod_exists] in H; exact H.
+Qed.
+
+Lemma invP_fold uf mac l : forall s, InvP s uf -> (forall r, In r l -> lookup (r_nh r) (nhif s) = Some (r_if r)) ->
+  InvP (fold_left (fun s' r => add_neighbor s' r mac) l s) uf.
+Proof.
+  induction l as [|r t IH]; intros s J H; cbn; [exact J|].
+  apply IH; [apply invP_add_neighbor; [exact J|apply H; now left]|].
+  intros r0 Hr0. destruct (add_neighbor_same s r mac) as (_ & _ & _ & _ & ->). apply H. now right.
+Qed.
+
+Lemma invP_step uf s ev :
+  InvM s uf [] None -> InvP s uf -> good_ev s ev = true -> InvP (step s ev) uf.
+Proof.
+  intros I J Hg. unfold good_ev in Hg. apply andb_true_iff in Hg. destruct Hg as (Hw & Hb).
+  destruct ev as [r|r|nh mac|]; cbn [step].
+  - destruct (managed s (r_if r)) eqn:M; [|exact J].
+    pose proof (invP_kern_add uf s r J M Hb) as J1. pose proof (nhif_kern_add_nh s r Hb M) as Hnh.
+    unfold add_new_route_entry. change (kneigh (kern_add s r)) with (kneigh s).
+    destruct (lookup (r_nh r) (kneigh s)) as [mac|].
+    + apply invP_add_neighbor; assumption.
+    + apply (invP_same uf (kern_add s r)); auto.
+  - destruct (managed s (r_if r)) eqn:M; [|exact J].
+    assert (Hn1 : no_updr (kern_del s r)).
+    { unfold kern_del. destruct (kern_has s r); exact (mU _ _ _ _ I). }
+    destruct (delete_effect (kern_del s r) r Hn1) as (E1 & E2 & E3 & E4 & E5 & E6 & E7 & E8). cbn zeta in *.
+    apply (invP_same uf s _ J).
+    + intros p x. rewrite E5. unfold kern_del. destruct (kern_has s r); [cbn [kern]; maps; eqb_cases; congruence|auto].
+    + rewrite E4. unfold kern_del. destruct (kern_has s r); reflexivity.
+    + rewrite E3. unfold kern_del. destruct (kern_has s r); reflexivity.
+    + rewrite E1. unfold kern_del. destruct (kern_has s r); reflexivity.
+    + rewrite E2. unfold kern_del. destruct (kern_has s r); reflexivity.
+    + intros nh. rewrite E8. unfold kern_del. destruct (kern_has s r); reflexivity.
+  - unfold new_neigh. set (s1 := St _ _ _ _ (upsert nh mac (kneigh s)) _ _ _ _).
+    assert (J1 : InvP s1 uf) by (apply (invP_same uf s _ J); auto).
+    change (unres s1) with (unres s). destruct (lookup nh (unres s)) as [[|r t]|] eqn:Eu; [exact J1| |exact J1].
+    set (l := r :: t) in *.
+    assert (J2 : InvP (fold_left (fun s' x => add_neighbor s' x mac) l s1) uf).
+    { apply invP_fold; [exact J1|]. intros x Hx.
+      destruct (mA2 _ _ _ _ I nh l x ltac:(discriminate) Eu Hx) as (A & B & _). rewrite A.
+      exact (pA1 _ _ J _ _ _ B). }
+    apply (invP_same uf _ _ J2); auto.
+  - exact J.
+Qed.
+
+Lemma invP_init uf ifs : InvP (init ifs) uf.
+Proof.
+  constructor; cbn; try (intros; discriminate).
+  unfold BInv. cbn. split; [|split]; intros; discriminate.
+Qed.
+
+Lemma good_parts s ev : good_ev s ev = true -> wf_ev s ev = true /\ bound_ev s ev = true.
+Proof. unfold good_ev. rewrite andb_true_iff. tauto. Qed.
+Lemma good_wf s h : run_ok good_ev s h = true -> run_ok wf_ev s h = true.
+Proof.
+  revert s. induction h as [|ev h IH]; intros s H; cbn in *; [reflexivity|].
+  apply andb_true_iff in H. destruct H as (H1 & H2). apply good_parts in H1. rewrite IH by assumption.
+  destruct H1 as (-> & _). reflexivity.
+Qed.
+Lemma good_bound s h : run_ok good_ev s h = true -> run_ok bound_ev s h = true.
+Proof.
+  revert s. induction h as [|ev h IH]; intros s H; cbn in *; [reflexivity|].
+  apply andb_true_iff in H. destruct H as (H1 & H2). apply good_parts in H1. rewrite IH by assumption.
+  destruct H1 as (_ & ->). reflexivity.
+Qed.
+
+Lemma invMP_run h : forall s, InvM s false [] None -> InvP s false -> run_ok good_ev s h = true ->
+  InvM (run s h) false [] None /\ InvP (run s h) false.
+Proof.
+  induction h as [|ev h IH]; intros s I J Hok; cbn in *; [auto|].
+  apply andb_true_iff in Hok. destruct Hok as (H1 & H2). destruct (good_parts _ _ H1) as (Hw & Hb).
+  apply IH; [apply invM_step; [assumption|assumption|discriminate]|apply invP_step; assumption|exact H2].
+Qed.
+Lemma invMPu_run h : forall s, InvM s true [] None -> InvP s true -> run_ok goodu_ev s h = true ->
+  InvM (run s h) true [] None /\ InvP (run s h) true.
+Proof.
+  induction h as [|ev h IH]; intros s I J Hok; cbn in *; [auto|].
+  apply andb_true_iff in Hok. destruct Hok as (H1 & H2). unfold goodu_ev in H1. apply andb_true_iff in H1.
+  destruct H1 as (Hg & Hk). destruct (good_parts _ _ Hg) as (Hw & Hb).
+  apply IH; [apply invM_step; auto|apply invP_step; assumption|exact H2].
+Qed.
+
+(* ================================================================ 5. the statements of C20 on a state *)
+(* installed in the interface's lookup module  <->  the kernel has it and the next hop's MAC is known *)
+Definition mirror (s : st) : Prop :=
+  forall i p, (exists g, lookup (i, p) (lpm (bs s)) = Some g) <->
+              (exists nh mac, lookup p (kern s) = Some (nh, i) /\ lookup nh (kneigh s) = Some mac).
+(* every installed kernel route through nh uses THE gate of nh, and that gate leads to THE Update
+   module writing nh's MAC, which feeds the interface's Merge *)
+Definition routes_share (s : st) : Prop :=
+  forall p nh i g, lookup p (kern s) = Some (nh, i) -> lookup (i, p) (lpm (bs s)) = Some g ->
+    exists e, lookup nh (ncache s) = Some e /\ g = n_gate e /\
+              lookup nh (kneigh s) = Some (n_mac e) /\ path (bs s) i g (n_mac e).
+(* all installed routes through one next hop use one gate - needs no hypothesis on interfaces *)
+Definition one_gate_per_next_hop (s : st) : Prop :=
+  forall p1 p2 nh i1 i2 g1 g2, lookup p1 (kern s) = Some (nh, i1) -> lookup p2 (kern s) = Some (nh, i2) ->
+    lookup (i1, p1) (lpm (bs s)) = Some g1 -> lookup (i2, p2) (lpm (bs s)) = Some g2 -> g1 = g2.
+(* installed routes of two different next hops on one interface use different gates *)
+Definition obs_gates_distinct (s : st) : Prop :=
+  forall p1 p2 nh1 nh2 i g1 g2, nh1 <> nh2 ->
+    lookup p1 (kern s) = Some (nh1, i) -> lookup p2 (kern s) = Some (nh2, i) ->
+    lookup (i, p1) (lpm (bs s)) = Some g1 -> lookup (i, p2) (lpm (bs s)) = Some g2 -> g1 <> g2.
+(* a run-time (Update) module exists only while an installed kernel route is forwarded to it *)
+Definition update_used (s : st) : Prop :=
+  forall u mac, lookup u (upd (bs s)) = Some mac ->
+    exists p nh i g, lookup p (kern s) = Some (nh, i) /\ lookup (i, p) (lpm (bs s)) = Some g /\
+                     lookup (MRoutes i, g) (links (bs s)) = Some (u, 0).
+
+Lemma invM_mirror uf s : InvM s uf [] None -> mirror s.
+Proof.
+  intros I i p. split.
+  - intros (g & Hg). destruct (mA5 _ _ _ _ I _ _ _ Hg) as (nh & e & K & Ne & _).
+    exists nh, (n_mac e). split; [exact K|exact (mA4 _ _ _ _ I _ _ Ne)].
+  - intros (nh & mac & K & Kn). destruct (mA6 _ _ _ _ I _ _ _ _ ltac:(intros []) K Kn) as (e & _ & L). eauto.
+Qed.
+
+Lemma invM_one_gate uf s : InvM s uf [] None -> one_gate_per_next_hop s.
+Proof.
+  intros I p1 p2 nh i1 i2 g1 g2 K1 K2 L1 L2.
+  destruct (mA5 _ _ _ _ I _ _ _ L1) as (n1 & e1 & K1' & N1 & ->).
+  destruct (mA5 _ _ _ _ I _ _ _ L2) as (n2 & e2 & K2' & N2 & ->).
+  assert (n1 = nh) by congruence. assert (n2 = nh) by congruence. subst. congruence.
+Qed.
+
+Lemma inv_routes_share uf s : InvM s uf [] None -> InvP s uf -> routes_share s.
+Proof.
+  intros I J p nh i g K L.
+  destruct (mA5 _ _ _ _ I _ _ _ L) as (n & e & K' & Ne & ->). assert (n = nh) by congruence. subst n.
+  exists e. split; [exact Ne|]. split; [reflexivity|]. split; [exact (mA4 _ _ _ _ I _ _ Ne)|].
+  destruct (pA4 _ _ J _ _ Ne) as (j & Hj & Hp). pose proof (pA1 _ _ J _ _ _ K) as Hi.
+  assert (j = i) by congruence. subst j. exact Hp.
+Qed.
+
+Lemma inv_obs_gates uf s : InvM s uf [] None -> InvP s uf -> GInv s -> obs_gates_distinct s.
+Proof.
+  intros I J (G1 & G2 & G3) p1 p2 nh1 nh2 i g1 g2 Hne K1 K2 L1 L2.
+  destruct (inv_routes_share uf s I J _ _ _ _ K1 L1) as (e1 & N1 & -> & _).
+  destruct (inv_routes_share uf s I J _ _ _ _ K2 L2) as (e2 & N2 & -> & _).
+  apply (G2 nh1 nh2 e1 e2 i); auto.
+  - exact (pA1 _ _ J _ _ _ K1).
+  - exact (pA1 _ _ J _ _ _ K2).
+Qed.
+
+Lemma invu_update_used s : InvM s true [] None -> InvP s true -> update_used s.
+Proof.
+  intros I J u mac Hu.
+  destruct (pA12 _ _ J eq_refl u mac Hu) as (nh & e & i & Hn & Hi & ->).
+  destruct (mA11 _ _ _ _ I eq_refl nh e Hn) as (p & i' & K).
+  pose proof (pA1 _ _ J _ _ _ K) as Hi'. assert (i' = i) by congruence. subst i'.
+  pose proof (mA4 _ _ _ _ I _ _ Hn) as Hk.
+  destruct (pA4 _ _ J _ _ Hn) as (j & Hj & (P1 & _)). assert (j = i) by congruence. subst j.
+  destruct (mA6 _ _ _ _ I _ _ _ _ ltac:(intros []) K Hk) as (e' & Hn' & Hl).
+  assert (e' = e) by congruence. subst e'.
+  exists p, nh, i, (n_gate e). auto.
+Qed.
+
+(* ================================================================ 6. theorems over all histories *)
+Theorem mirror_wf ifs h : run_ok wf_ev (init ifs) h = true -> mirror (run (init ifs) h).
+Proof. intros H. apply (invM_mirror false), invM_run; [apply invM_init|exact H]. Qed.
+
+Theorem one_gate_wf ifs h : run_ok wf_ev (init ifs) h = true -> one_gate_per_next_hop (run (init ifs) h).
+Proof. intros H. apply (invM_one_gate false), invM_run; [apply invM_init|exact H]. Qed.
+
+Theorem routes_share_good ifs h : run_ok good_ev (init ifs) h = true -> routes_share (run (init ifs) h).
+Proof.
+  intros H. destruct (invMP_run h _ (invM_init false ifs) (invP_init false ifs) H) as (I & J).
+  exact (inv_routes_share false _ I J).
+Qed.
+
+Theorem obs_gates_good ifs h : run_ok good_ev (init ifs) h = true -> obs_gates_distinct (run (init ifs) h).
+Proof.
+  intros H. destruct (invMP_run h _ (invM_init false ifs) (invP_init false ifs) H) as (I & J).
+  apply (inv_obs_gates false _ I J). apply ginv_run; [apply ginv_init|apply good_bound; exact H].
+Qed.
+
+Theorem update_used_goodu ifs h : run_ok goodu_ev (init ifs) h = true -> update_used (run (init ifs) h).
+Proof.
+  intros H. destruct (invMPu_run h _ (invM_init true ifs) (invP_init true ifs) H) as (I & J).
+  exact (invu_update_used _ I J).
+Qed.
+
+(* the rewrite module of a gate in use exists (converse of update_used), on every good history *)
+Theorem used_update_exists ifs h :
+  run_ok good_ev (init ifs) h = true ->
+  forall p nh i g, lookup p (kern (run (init ifs) h)) = Some (nh, i) ->
+    lookup (i, p) (lpm (bs (run (init ifs) h))) = Some g ->
+    exists u mac, lookup (MRoutes i, g) (links (bs (run (init ifs) h))) = Some (u, 0) /\
+                  lookup u (upd (bs (run (init ifs) h))) = Some mac /\
+                  lookup nh (kneigh (run (init ifs) h)) = Some mac.
+Proof.
+  intros H p nh i g K L. destruct (routes_share_good ifs h H p nh i g K L) as (e & _ & _ & Hk & (P1 & P2 & _)).
+  eauto.
+Qed.
+
+(* ================================================================ 7. what is still false (F29c, F40) *)
+(* every guard except "a next hop sits on one interface" *)
+Definition but_bound (s : st) (ev : event) : bool := wf_ev s ev && keepuser_ev s ev.
 
 (* F29c: the last route of a next hop goes; the module created as <iface>DstMAC.. stays because
    <iface>RoutesDstMAC.. is what delete_route_entry asks BESS to destroy *)
@@ -894,8 +1171,13 @@ Proof.
   - intros D. apply (D 1 2 2 1 1 0 0); try (vm_compute; reflexivity). discriminate.
 Qed.
 
-(* non-vacuity: guarded histories that install, share, re-use and delete *)
+(* non-vacuity: a guarded history with three routes waiting for one next hop (one of them deleted
+   while waiting, one announced twice), routes sharing a next hop, deletions, noise, an unmanaged interface *)
 Definition h_good : list event :=
-  [NewRoute (Route 0 1 0); NewNeigh 1 101; NewNeigh 2 102; NewRoute (Route 1 1 0); NewRoute (Route 2 2 0);
+  [NewRoute (Route 0 1 0); NewRoute (Route 1 1 0); NewRoute (Route 6 1 0); DelRoute (Route 6 1 0);
+   NewNeigh 1 101; NewNeigh 2 102; NewRoute (Route 2 2 0);
    NewNeigh 4 104; NewRoute (Route 3 4 1); Noise; DelRoute (Route 0 1 0); NewRoute (Route 4 3 0); NewNeigh 3 103;
    NewRoute (Route 0 3 0); DelRoute (Route 4 3 0); NewRoute (Route 5 1 7)].
+(* the histories that refuted the mirror before the repair 1b62c73 (F29a, F29b) now satisfy it *)
+Definition h_overwritten : list event := [NewRoute (Route 0 1 0); NewRoute (Route 1 1 0); NewNeigh 1 101].
+Definition h_deleted_pending : list event := [NewRoute (Route 0 1 0); DelRoute (Route 0 1 0); NewNeigh 1 101].
